@@ -1,13 +1,18 @@
-(* C01: the forward simulation of Lang/Simulation2.v extended to `break` (at any depth of if / else and blocks
-   inside a loop body) and to the endless `repeat` that only a break leaves: every call-free program made of
-   the covered statements, conditionals, blocks, `repeat while`, counted `repeat n`, plain `repeat` and `break`.
+(* C01 / C03 / C05: the forward simulation of Lang/Simulation2.v extended to `break` (at any depth of if / else and
+   blocks inside a loop body), to the endless `repeat` that only a break leaves, to calls of user routines and to
+   `return`: every program whose routines do not call themselves and whose statements are the covered ones,
+   conditionals, blocks, `repeat while`, counted `repeat n`, plain `repeat`, `break`, calls `f a b ...` with ordinary
+   values as arguments, and `return`.
 
    A statement inside a loop is compiled with [after] = the number of instructions between its end and the
-   END_LOOP of the innermost loop; `break` is JUMP ALWAYS (after + 1).  The simulation says where the machine
-   is when the reference semantics answers SigBreak: at that END_LOOP, stack and frames as at the start. *)
+   END_LOOP of the innermost loop; `break` is JUMP ALWAYS (after + 1).  A call is CTX; (argument -> RESULT; PARAM p
+   RESULT)*; JSR f; END_CTX; the routine's body lies elsewhere in the image, followed by END f.  `return` is RETURN,
+   which drops the loop frames of the routine and its call frame and goes on behind the END_CTX of the call; running
+   into END f does the same and goes on at the END_CTX.  The simulation says where the machine is when the reference
+   semantics answers SigNormal (behind the statement), SigBreak (at that END_LOOP) or SigReturn (behind the call). *)
 From Coq Require Import ZArith String List Bool Lia.
-From Bardolph Require Import Gen.Codes Lang.Value Lang.Instr Lang.Loader Lang.World Lang.Units0 Lang.Regs Lang.Devices
-  Lang.Machine Lang.Syntax Lang.Sem Lang.CodeGen Lang.ExprCompile Lang.Simulation Lang.Simulation2.
+From Bardolph Require Import Gen.Codes Lang.Value Lang.Instr Lang.Loader Lang.World Lang.Units0 Lang.Regs Lang.Devices Lang.Builtins
+  Lang.Machine Lang.Syntax Lang.Sem Lang.CodeGen Lang.Scope Lang.ExprCompile Lang.Simulation Lang.Simulation2 Lang.CallFrames.
 Open Scope string_scope.
 Open Scope list_scope.
 Import ListNotations.
@@ -17,19 +22,33 @@ Section Sim3.
 Variable rt : rtable.
 Variable mt : mtable.
 
-(* [SimpleB inl st]: st is covered; inl = it may contain a break that belongs to an enclosing loop *)
-Inductive SimpleB : bool -> stmt -> Prop :=
-| B_simple inl st : Simple mt st -> SimpleB inl st
-| B_break : SimpleB true SBreak
-| B_if inl c a : plain_rval mt c = true -> SimpleB inl a -> SimpleB inl (SIf c a None)
-| B_ifelse inl c a b : plain_rval mt c = true -> SimpleB inl a -> SimpleB inl b -> SimpleB inl (SIf c a (Some b))
-| B_block inl l : SimpleBL inl l -> SimpleB inl (SBlock l)
-| B_while inl c a : plain_rval mt c = true -> SimpleB true a -> SimpleB inl (SRepeat (LWhile c) a)
-| B_count inl n a : plain_rval mt n = true -> SimpleB true a -> SimpleB inl (SRepeat (LCount n) a)
-| B_infinite inl a : SimpleB true a -> SimpleB inl (SRepeat LInfinite a)
-with SimpleBL : bool -> list stmt -> Prop :=
-| BL_nil inl : SimpleBL inl []
-| BL_cons inl st r : SimpleB inl st -> SimpleBL inl r -> SimpleBL inl (st :: r).
+(* the arguments of a call: one ordinary value per declared parameter *)
+Fixpoint plain_args (args : list rval) (ps : list string) : bool :=
+  match args, ps with
+  | [], [] => true
+  | a :: r, _ :: ps' => plain_rval mt a && plain_args r ps'
+  | _, _ => false
+  end.
+
+(* [SimpleB inl inr st]: st is covered; inl = it may contain a break that belongs to an enclosing loop;
+   inr = it may contain a return (it lies in the body of a routine).  A call is covered when the body of the routine it
+   names is: the derivation is finite, so the routines reached do not call themselves. *)
+Inductive SimpleB : bool -> bool -> stmt -> Prop :=
+| B_simple inl inr st : Simple mt st -> SimpleB inl inr st
+| B_break inr : SimpleB true inr SBreak
+| B_return inl v : plain_rval mt v = true -> SimpleB inl true (SReturn (Some v))
+| B_return0 inl : SimpleB inl true (SReturn None)
+| B_call inl inr f args b d : builtin_params f builtin_table = None -> find_rdef rt f = Some d ->
+    plain_args args (rd_params d) = true -> SimpleB false true (rd_body d) -> SimpleB inl inr (SCall f args b)
+| B_if inl inr c a : plain_rval mt c = true -> SimpleB inl inr a -> SimpleB inl inr (SIf c a None)
+| B_ifelse inl inr c a b : plain_rval mt c = true -> SimpleB inl inr a -> SimpleB inl inr b -> SimpleB inl inr (SIf c a (Some b))
+| B_block inl inr l : SimpleBL inl inr l -> SimpleB inl inr (SBlock l)
+| B_while inl inr c a : plain_rval mt c = true -> SimpleB true inr a -> SimpleB inl inr (SRepeat (LWhile c) a)
+| B_count inl inr n a : plain_rval mt n = true -> SimpleB true inr a -> SimpleB inl inr (SRepeat (LCount n) a)
+| B_infinite inl inr a : SimpleB true inr a -> SimpleB inl inr (SRepeat LInfinite a)
+with SimpleBL : bool -> bool -> list stmt -> Prop :=
+| BL_nil inl inr : SimpleBL inl inr []
+| BL_cons inl inr st r : SimpleB inl inr st -> SimpleBL inl inr r -> SimpleBL inl inr (st :: r).
 
 Scheme SimpleB_ind2 := Induction for SimpleB Sort Prop
 with SimpleBL_ind2 := Induction for SimpleBL Sort Prop.
@@ -59,55 +78,127 @@ Proof. reflexivity. Qed.
 Lemma exec_break f ss : Sem.exec rt mt (S f) false ss SBreak = ROk SigBreak ss.
 Proof. reflexivity. Qed.
 
+Lemma c_return v after : c_stmt rt mt false after (SReturn (Some v)) = c_rval rt mt v (DReg R_RESULT) ++ [I0 OC_RETURN].
+Proof. reflexivity. Qed.
+Lemma c_return0 after : c_stmt rt mt false after (SReturn None) = [I2 OC_MOVEQ PNone (PReg R_RESULT); I0 OC_RETURN].
+Proof. reflexivity. Qed.
+Lemma exec_return f ss v : Sem.exec rt mt (S f) false ss (SReturn (Some v)) =
+  (let* (x, s1) := eval_rval rt mt f false ss v in ROk (SigReturn x) s1).
+Proof. reflexivity. Qed.
+Lemma exec_return0 f ss : Sem.exec rt mt (S f) false ss (SReturn None) = ROk (SigReturn VNone) ss.
+Proof. reflexivity. Qed.
+
+(* the code of the arguments of a call *)
+Fixpoint c_args (ps : list string) (args : list rval) : program :=
+  match ps, args with
+  | p :: ps', a :: r => c_rval rt mt a (DReg R_RESULT) ++ [I2 OC_PARAM (PStr p) (PReg R_RESULT)] ++ c_args ps' r
+  | _, _ => []
+  end.
+Lemma c_callB after f args b d : builtin_params f builtin_table = None -> find_rdef rt f = Some d ->
+  c_stmt rt mt false after (SCall f args b) = [I0 OC_CTX] ++ c_args (rd_params d) args ++ [I1 OC_JSR (PStr f); I0 OC_END_CTX].
+Proof.
+  intros Hb Hf. cbn [c_stmt]. unfold c_call, mk_call, params_of_routine. rewrite Hb, Hf. f_equal. f_equal.
+  generalize (rd_params d). induction args as [|a r IH]; intros ps; destruct ps as [|p ps]; cbn [map c_args]; try reflexivity.
+  rewrite IH. reflexivity.
+Qed.
+Lemma exec_call f ss g args b : Sem.exec rt mt (S f) false ss (SCall g args b) = (let* (_, s1) := call rt mt f false ss g args in ROk SigNormal s1).
+Proof. reflexivity. Qed.
+
 (* no routine markers, whatever the distance *)
+Lemma c_args_no_routine args : forall ps, plain_args args ps = true -> forallb not_routine (c_args ps args) = true.
+Proof.
+  induction args as [|a r IH]; intros ps H; destruct ps as [|p ps]; cbn [plain_args c_args] in *; try reflexivity; try discriminate.
+  apply andb_true_iff in H. destruct H as [Ha Hr].
+  rewrite !forallb_app, (c_rval_no_routine rt mt a (DReg R_RESULT) Ha (plain_ok_result mt a Ha)), (IH ps Hr). reflexivity.
+Qed.
+
 Lemma simpleB_no_routine :
-  (forall inl st, SimpleB inl st -> forall after, forallb not_routine (c_stmt rt mt false after st) = true) /\
-  (forall inl l, SimpleBL inl l -> forall after, forallb not_routine (c_stmt rt mt false after (SBlock l)) = true).
+  (forall inl inr st, SimpleB inl inr st -> forall after, forallb not_routine (c_stmt rt mt false after st) = true) /\
+  (forall inl inr l, SimpleBL inl inr l -> forall after, forallb not_routine (c_stmt rt mt false after (SBlock l)) = true).
 Proof.
   apply SimpleB_mutind.
-  - intros inl st H after. rewrite (proj1 (simple_after rt mt) st H after). apply (proj1 (simple_no_routine rt mt)). exact H.
-  - intros after. rewrite c_break. destruct after; reflexivity.
-  - intros inl c a Hc _ IHa after. rewrite c_if1_after, !forallb_app, (IHa after), (c_rval_no_routine rt mt c (DReg R_RESULT) Hc (plain_ok_result mt c Hc)). reflexivity.
-  - intros inl c a b Hc _ IHa _ IHb after. rewrite c_if2_after, !forallb_app, (IHa _), (IHb after), (c_rval_no_routine rt mt c (DReg R_RESULT) Hc (plain_ok_result mt c Hc)). reflexivity.
-  - intros inl l _ IH after. exact (IH after).
-  - intros inl c a Hc _ IHa after. rewrite c_loop_after, c_whileB, app_nil_r, !forallb_app, (IHa (Some 1)),
-      (c_rval_no_routine rt mt c (DReg R_RESULT) Hc (plain_ok_result mt c Hc)). reflexivity.
-  - intros inl n a Hn _ IHa after. rewrite c_loop_after, c_count, !forallb_app, (IHa _), (c_rval_counter_no_routine rt mt n Hn). reflexivity.
-  - intros inl a _ IHa after. rewrite c_loop_after, c_infinite, app_nil_r, !forallb_app, (IHa (Some 1)). reflexivity.
+  - intros inl inr st H after. rewrite (proj1 (simple_after rt mt) st H after). apply (proj1 (simple_no_routine rt mt)). exact H.
+  - intros inr after. rewrite c_break. destruct after; reflexivity.
+  - intros inl v Hv after. rewrite c_return, forallb_app, (c_rval_no_routine rt mt v (DReg R_RESULT) Hv (plain_ok_result mt v Hv)). reflexivity.
   - intros inl after. reflexivity.
-  - intros inl st r _ IHst _ IHr after. rewrite c_block_cons_after, forallb_app, (IHst _), (IHr after). reflexivity.
+  - intros inl inr f args b d Hb Hf Ha _ _ after. rewrite (c_callB after f args b d Hb Hf), !forallb_app, (c_args_no_routine args _ Ha). reflexivity.
+  - intros inl inr c a Hc _ IHa after. rewrite c_if1_after, !forallb_app, (IHa after), (c_rval_no_routine rt mt c (DReg R_RESULT) Hc (plain_ok_result mt c Hc)). reflexivity.
+  - intros inl inr c a b Hc _ IHa _ IHb after. rewrite c_if2_after, !forallb_app, (IHa _), (IHb after), (c_rval_no_routine rt mt c (DReg R_RESULT) Hc (plain_ok_result mt c Hc)). reflexivity.
+  - intros inl inr l _ IH after. exact (IH after).
+  - intros inl inr c a Hc _ IHa after. rewrite c_loop_after, c_whileB, app_nil_r, !forallb_app, (IHa (Some 1)),
+      (c_rval_no_routine rt mt c (DReg R_RESULT) Hc (plain_ok_result mt c Hc)). reflexivity.
+  - intros inl inr n a Hn _ IHa after. rewrite c_loop_after, c_count, !forallb_app, (IHa _), (c_rval_counter_no_routine rt mt n Hn). reflexivity.
+  - intros inl inr a _ IHa after. rewrite c_loop_after, c_infinite, app_nil_r, !forallb_app, (IHa (Some 1)). reflexivity.
+  - intros inl inr after. reflexivity.
+  - intros inl inr st r _ IHst _ IHr after. rewrite c_block_cons_after, forallb_app, (IHst _), (IHr after). reflexivity.
 Qed.
 
 (* ---- where the machine is afterwards ---- *)
 Definition sim_to (im : image) (ss : sstate) (s : mstate) (ss' : sstate) (target : Z) : Prop :=
   exists n s' evs, esteps n im s = Some (s', evs) /\ sim ss' s' /\ m_pc s' = target /\
-                   (m_stack s', m_frames s') = (m_stack s, m_frames s) /\ rev (s_trace ss') = rev (s_trace ss) ++ evs.
+                   (m_stack s', fr s') = (m_stack s, fr s) /\ rev (s_trace ss') = rev (s_trace ss) ++ evs.
+
+(* after a return: everything corresponds but the variables -- those of the routine are gone with its frame, the
+   reference semantics puts the caller's back *)
+Definition ret_state (ss' : sstate) (s' : mstate) : Prop :=
+  agree (m_regs s') (s_regs ss') /\ regs_full (s_regs ss') /\ m_globals s' = s_globals ss' /\ m_world s' = s_world ss' /\ m_unnamed s' = [].
+
+Definition returned (im : image) (ss : sstate) (s : mstate) (ss' : sstate) : Prop :=
+  exists ret F, call_tail (m_frames s) = Some (ret, F) /\
+  exists n s' evs, esteps n im s = Some (s', evs) /\ ret_state ss' s' /\ m_pc s' = ret + 1 /\ m_frames s' = F /\ m_stack s' = m_stack s /\
+                   rev (s_trace ss') = rev (s_trace ss) ++ evs.
 
 Definition outcome (after : option Z) (im : image) (ss : sstate) (s : mstate) (sig : signal) (ss' : sstate) (code : program) : Prop :=
   (sig = SigNormal /\ sim_to im ss s ss' (m_pc s + zlength code)) \/
-  (sig = SigBreak /\ exists a, after = Some a /\ sim_to im ss s ss' (m_pc s + zlength code + a)).
+  (sig = SigBreak /\ exists a, after = Some a /\ sim_to im ss s ss' (m_pc s + zlength code + a)) \/
+  (exists v, sig = SigReturn v /\ returned im ss s ss').
 
 Definition in_loop_ok (inl : bool) (after : option Z) : Prop := inl = true -> exists a, after = Some a.
+Definition in_ret_ok (inr : bool) (fs : frames) : Prop := inr = true -> exists ret F, call_tail fs = Some (ret, F).
 
 Lemma in_loop_ok_map inl after f : in_loop_ok inl after -> in_loop_ok inl (option_map f after).
 Proof. intros H Hi. destruct (H Hi) as [a ->]. exists (f a). reflexivity. Qed.
 
+(* the routines of the program lie in the image: the body, then END *)
+Definition routines_loaded (im : image) : Prop :=
+  forall f d, find_rdef rt f = Some d ->
+  exists addr r, find_routine (PStr f) (im_routines im) = Some (addr, r) /\
+                 code_at im addr (c_stmt rt mt false None (rd_body d) ++ [I1 OC_END (PStr f)]).
 
 (* ---- composing runs ---- *)
+Lemma returned_rebase im ss s sa s1 n1 e1 ss' :
+  esteps n1 im s = Some (s1, e1) -> call_tail (m_frames s1) = call_tail (m_frames s) -> m_stack s1 = m_stack s ->
+  rev (s_trace sa) = rev (s_trace ss) ++ e1 -> returned im sa s1 ss' -> returned im ss s ss'.
+Proof.
+  intros E1 Hct Hsk Ht1 (ret & F & Hc & n & s2 & e2 & E2 & Hr2 & Hpc2 & Hf2 & Hst2 & Ht2).
+  exists ret, F. split; [rewrite <- Hct; exact Hc|]. exists (n1 + n)%nat, s2, (e1 ++ e2). split; [eapply esteps_app; eassumption|].
+  split; [exact Hr2|]. split; [exact Hpc2|]. split; [exact Hf2|]. split; [rewrite Hst2; exact Hsk|]. rewrite Ht2, Ht1, app_assoc. reflexivity.
+Qed.
+
+Lemma fr_eq_facts s1 s : (m_stack s1, fr s1) = (m_stack s, fr s) ->
+  m_stack s1 = m_stack s /\ call_tail (m_frames s1) = call_tail (m_frames s) /\
+  (forall z, depth_ok (m_frames s) z -> depth_ok (m_frames s1) z).
+Proof.
+  intros H. injection H as H1 H2. unfold fr in H2. split; [exact H1|]. split; [apply call_tail_fr_eq; exact H2|].
+  intros z Hd. apply (depth_ok_fr_eq (m_frames s) (m_frames s1) z); [symmetry; exact H2|exact Hd].
+Qed.
+
 Lemma outcome_after_steps after im ss s sa s1 n1 e1 sig ss' c2 c :
-  esteps n1 im s = Some (s1, e1) -> (m_stack s1, m_frames s1) = (m_stack s, m_frames s) ->
+  esteps n1 im s = Some (s1, e1) -> (m_stack s1, fr s1) = (m_stack s, fr s) ->
   rev (s_trace sa) = rev (s_trace ss) ++ e1 -> m_pc s1 + zlength c2 = m_pc s + zlength c ->
   outcome after im sa s1 sig ss' c2 -> outcome after im ss s sig ss' c.
 Proof.
-  intros E1 Hst1 Ht1 Hpc [[Hsig (n & s2 & e2 & E2 & Hs2 & Hpc2 & Hst2 & Ht2)]|[Hsig (a & Ha & n & s2 & e2 & E2 & Hs2 & Hpc2 & Hst2 & Ht2)]].
+  intros E1 Hst1 Ht1 Hpc [[Hsig (n & s2 & e2 & E2 & Hs2 & Hpc2 & Hst2 & Ht2)]|[[Hsig (a & Ha & n & s2 & e2 & E2 & Hs2 & Hpc2 & Hst2 & Ht2)]|[v [Hsig Hret]]]].
   - left. split; [exact Hsig|]. exists (n1 + n)%nat, s2, (e1 ++ e2). split; [eapply esteps_app; eassumption|]. split; [exact Hs2|].
     split; [rewrite Hpc2; exact Hpc|]. split; [rewrite Hst2; exact Hst1|]. rewrite Ht2, Ht1, app_assoc. reflexivity.
-  - right. split; [exact Hsig|]. exists a. split; [exact Ha|]. exists (n1 + n)%nat, s2, (e1 ++ e2). split; [eapply esteps_app; eassumption|]. split; [exact Hs2|].
+  - right. left. split; [exact Hsig|]. exists a. split; [exact Ha|]. exists (n1 + n)%nat, s2, (e1 ++ e2). split; [eapply esteps_app; eassumption|]. split; [exact Hs2|].
     split; [rewrite Hpc2, Hpc; reflexivity|]. split; [rewrite Hst2; exact Hst1|]. rewrite Ht2, Ht1, app_assoc. reflexivity.
+  - right. right. exists v. split; [exact Hsig|]. destruct (fr_eq_facts s1 s Hst1) as [Hsk [Hct _]].
+    exact (returned_rebase im ss s sa s1 n1 e1 ss' E1 Hct Hsk Ht1 Hret).
 Qed.
 
 Lemma sim_to_after_steps im ss s sa s1 n1 e1 ss' t :
-  esteps n1 im s = Some (s1, e1) -> (m_stack s1, m_frames s1) = (m_stack s, m_frames s) ->
+  esteps n1 im s = Some (s1, e1) -> (m_stack s1, fr s1) = (m_stack s, fr s) ->
   rev (s_trace sa) = rev (s_trace ss) ++ e1 -> sim_to im sa s1 ss' t -> sim_to im ss s ss' t.
 Proof.
   intros E1 Hst1 Ht1 (n & s2 & e2 & E2 & Hs2 & Hpc2 & Hst2 & Ht2).
@@ -128,47 +219,231 @@ Qed.
 Lemma sim_to_refl im ss s : sim ss s -> sim_to im ss s ss (m_pc s).
 Proof. intros H. exists 0%nat, s, []. split; [reflexivity|]. split; [exact H|]. split; [reflexivity|]. split; [reflexivity|]. rewrite app_nil_r. reflexivity. Qed.
 
-(* END_LOOP drops the loop frame and anything the loop left on the stack *)
-Lemma end_loop_step im ss s0 s lv :
-  sim ss s0 -> loops_only (m_frames s) = true -> fetch im (m_pc s0) = Some (I0 OC_END_LOOP) ->
-  m_frames s0 = FLoop lv (zlength (m_stack s)) :: m_frames s -> m_stack s0 = m_stack s ->
-  exists s1, esteps 1 im s0 = Some (s1, []) /\ sim ss s1 /\ m_pc s1 = m_pc s0 + 1 /\ (m_stack s1, m_frames s1) = (m_stack s, m_frames s).
+(* ---- the arguments of a call, evaluated while the new frame is under construction ---- *)
+Lemma simr_put_reg_hidden ss s r x k : simr ss s -> visible r = false -> simr ss (put_vm s (DReg r) x k).
 Proof.
-  intros Hs0 Hlo Hf Hfr Hst.
-  set (d := zlength (m_stack s)) in *.
-  set (s1 := advance (with_stack (with_frames s0 (m_frames s)) (truncate_to (m_stack s0) d))).
-  exists s1.
-  assert (Htr : truncate_to (m_stack s0) d = m_stack s).
-  { rewrite Hst. unfold d. destruct (m_stack s) as [|v k]; cbn [truncate_to]; [reflexivity|]. rewrite Z.leb_refl. reflexivity. }
-  split; [apply (estep1 im s0 _ _ _ Hf); cbn [Machine.exec i_op I0]; rewrite Hfr; reflexivity|].
-  split; [destruct Hs0 as [Hr Hfu Hg Hfr' Hl Hw Hu]; constructor; cbn; assumption|].
-  split; [reflexivity|]. change (m_stack s1, m_frames s1) with (truncate_to (m_stack s0) d, m_frames s). rewrite Htr. reflexivity.
+  intros H Hv. destruct H as [Hr Hf Hg Hvars Hw Hu]. constructor; cbn; try assumption.
+  apply agree_set_hidden; assumption.
 Qed.
 
+Lemma eval_args_S f ss a r : eval_args rt mt (S f) false ss (a :: r) =
+  (let* (v, s1) := eval_rval rt mt f false ss a in let* (vs, s2) := eval_args rt mt f false s1 r in ROk (v :: vs) s2).
+Proof. reflexivity. Qed.
+Lemma eval_args_nil f ss : eval_args rt mt (S f) false ss [] = ROk [] ss.
+Proof. reflexivity. Qed.
+
+Lemma args_run : forall args ps, plain_args args ps = true ->
+  forall fuel im ss s p0 F vs ss', simr ss s -> m_frames s = FCall p0 false None :: F -> code_at im (m_pc s) (c_args ps args) ->
+  eval_args rt mt fuel false ss args = ROk vs ss' ->
+  ss' = ss /\ exists n s' p1, esteps n im s = Some (s', []) /\ simr ss s' /\ m_pc s' = m_pc s + zlength (c_args ps args) /\
+                              m_frames s' = FCall p1 false None :: F /\ m_stack s' = m_stack s /\ bind_params ps vs p0 = Some p1.
+Proof.
+  induction args as [|a r IH]; intros ps Hpl fuel im ss s p0 F vs ss' Hsim Hfr Hc He; destruct ps as [|p ps]; cbn [plain_args] in Hpl; try discriminate.
+  - destruct fuel as [|fuel]; [discriminate|]. rewrite eval_args_nil in He. injection He as Hvs Hss. subst vs ss'. split; [reflexivity|].
+    exists 0%nat, s, p0. split; [reflexivity|]. split; [exact Hsim|]. split; [cbn [c_args]; unfold zlength; cbn; lia|]. split; [exact Hfr|]. split; reflexivity.
+  - apply andb_true_iff in Hpl. destruct Hpl as [Ha Hr].
+    destruct fuel as [|fuel]; [discriminate|]. rewrite eval_args_S in He.
+    destruct (eval_rval rt mt fuel false ss a) as [v s1|e s1|s1] eqn:Ev; cbn [sbind] in He; try discriminate.
+    destruct (eval_args rt mt fuel false s1 r) as [vs' s2|e s2|s2] eqn:Er; cbn [sbind] in He; try discriminate.
+    injection He as Hvs Hss. subst vs ss'.
+    cbn [c_args] in Hc |- *. apply code_at_app in Hc. destruct Hc as [Hca Hc]. apply code_at_app in Hc. destruct Hc as [Hcp Hcr].
+    cbn [code_at] in Hcp. destruct Hcp as [Hfp _]. rewrite zlength1 in Hcr.
+    destruct (c_rval_runs_r rt mt a (DReg R_RESULT) Ha (plain_ok_result mt a Ha) im ss s v s1 fuel Hsim Hca Ev) as [Hs1 [n Hn]]. subst s1.
+    set (k := zlength (c_rval rt mt a (DReg R_RESULT))) in *.
+    set (sa := put_vm s (DReg R_RESULT) v k) in *.
+    assert (Hsa : simr ss sa) by (apply simr_put_reg_hidden; [exact Hsim|reflexivity]).
+    set (sb := advance (with_frames sa (FCall (env_set p0 p v) false None :: F))).
+    assert (Eb : esteps 1 im sa = Some (sb, [])).
+    { apply (estep1 im sa _ _ _ Hfp). cbn [Machine.exec i_op i_p0 i_p1 I2].
+      assert (Hg : get_reg sa R_RESULT = Ok v) by (unfold sa; cbn [put_vm get_reg m_regs]; rewrite rf_get_set_same; reflexivity).
+      rewrite Hg. cbn [bind]. change (m_frames sa) with (m_frames s). rewrite Hfr. reflexivity. }
+    assert (Hsb : simr ss sb).
+    { destruct Hsa as [Hr' Hf' Hg' Hv' Hw' Hu']. constructor; cbn [sb advance with_pc with_frames with_vars m_regs m_globals m_frames m_world m_unnamed]; try assumption.
+      change (m_frames sa) with (m_frames s) in Hv'. rewrite Hfr in Hv'. exact Hv'. }
+    assert (Hcr' : code_at im (m_pc sb) (c_args ps r)) by exact Hcr.
+    destruct (IH ps Hr fuel im ss sb (env_set p0 p v) F vs' s2 Hsb eq_refl Hcr' Er) as [Hs2 (n2 & s' & p1 & E2 & Hs' & Hpc' & Hfr' & Hst' & Hb)]. subst s2.
+    split; [reflexivity|]. exists (n + (1 + n2))%nat, s', p1.
+    split; [replace (@nil event) with (@nil event ++ (@nil event ++ @nil event)) by reflexivity; eapply esteps_app; [exact Hn|eapply esteps_app; [exact Eb|exact E2]]|].
+    split; [exact Hs'|]. split; [rewrite Hpc'; unfold sb, sa; cbn [advance with_pc with_frames with_vars put_vm m_pc]; fold k; unfold zlength; rewrite !app_length, !Nat2Z.inj_add; cbn [length]; unfold k, zlength; lia|].
+    split; [exact Hfr'|]. split; [exact Hst'|]. cbn [bind_params]. exact Hb.
+Qed.
+
+(* ---- a call of a user routine ---- *)
+Lemma call_user f ss g args d : builtin_params g builtin_table = None -> find_rdef rt g = Some d ->
+  call rt mt (S f) false ss g args =
+  (let* (vs, s1) := eval_args rt mt f false ss args in
+   match bind_params (rd_params d) vs [] with
+   | Some p =>
+       match Sem.exec rt mt f false (s_with_locals s1 (Some p)) (rd_body d) with
+       | ROk sig s2 => match sig with SigReturn v => ROk v (s_with_locals s2 (s_locals s1)) | _ => ROk VNone (s_with_locals s2 (s_locals s1)) end
+       | RErr e s2 => RErr e s2
+       | RFuel s2 => RFuel s2
+       end
+   | None => RErr (EInternal "arity") s1
+   end).
+Proof.
+  intros Hb Hf.
+  assert (E : call rt mt (S f) false ss g args =
+    (let* (vs, s1) := eval_args rt mt f false ss args in
+     match builtin_params g builtin_table with
+     | Some ps => match bind_params ps vs [] with Some p => lift_res (call_builtin g p) s1 | None => RErr (EInternal "arity") s1 end
+     | None =>
+         match find_rdef rt g with
+         | Some d =>
+             match bind_params (rd_params d) vs [] with
+             | Some p =>
+                 match Sem.exec rt mt f false (s_with_locals s1 (Some p)) (rd_body d) with
+                 | ROk sig s2 => match sig with SigReturn v => ROk v (s_with_locals s2 (s_locals s1)) | _ => ROk VNone (s_with_locals s2 (s_locals s1)) end
+                 | RErr e s2 => RErr e s2
+                 | RFuel s2 => RFuel s2
+                 end
+             | None => RErr (EInternal "arity") s1
+             end
+         | None => RErr (EInternal "call of a routine that does not exist") s1
+         end
+     end)) by reflexivity.
+  rewrite E, Hb, Hf. reflexivity.
+Qed.
 
 Theorem simpleB_simulation :
-  (forall inl st, SimpleB inl st ->
-     forall after im ss s sig ss' fuel, in_loop_ok inl after -> sim ss s -> code_at im (m_pc s) (c_stmt rt mt false after st) ->
+  (forall inl inr st, SimpleB inl inr st ->
+     forall after im ss s sig ss' fuel, routines_loaded im -> in_loop_ok inl after -> in_ret_ok inr (m_frames s) ->
+     depth_ok (m_frames s) (zlength (m_stack s)) -> sim ss s -> code_at im (m_pc s) (c_stmt rt mt false after st) ->
      Sem.exec rt mt fuel false ss st = ROk sig ss' -> outcome after im ss s sig ss' (c_stmt rt mt false after st)) /\
-  (forall inl l, SimpleBL inl l ->
-     forall after im ss s sig ss' fuel, in_loop_ok inl after -> sim ss s -> code_at im (m_pc s) (c_stmt rt mt false after (SBlock l)) ->
+  (forall inl inr l, SimpleBL inl inr l ->
+     forall after im ss s sig ss' fuel, routines_loaded im -> in_loop_ok inl after -> in_ret_ok inr (m_frames s) ->
+     depth_ok (m_frames s) (zlength (m_stack s)) -> sim ss s -> code_at im (m_pc s) (c_stmt rt mt false after (SBlock l)) ->
      exec_seq rt mt fuel false ss l = ROk sig ss' -> outcome after im ss s sig ss' (c_stmt rt mt false after (SBlock l))).
 Proof.
   apply SimpleB_mutind.
   - (* a statement without break: Simulation2 *)
-    intros inl st Hst after im ss s sig ss' fuel _ Hsim Hc He.
+    intros inl inr st Hst after im ss s sig ss' fuel _ _ _ _ Hsim Hc He.
     rewrite (proj1 (simple_after rt mt) st Hst after) in *.
     destruct (proj1 (simple_simulation rt mt) st Hst im ss s sig ss' fuel Hsim Hc He) as [Hsig Hsimu].
     left. split; [exact Hsig|exact Hsimu].
   - (* break: the jump to the END_LOOP of the enclosing loop *)
-    intros after im ss s sig ss' fuel Hin Hsim Hc He.
+    intros inr after im ss s sig ss' fuel _ Hin _ _ Hsim Hc He.
     destruct fuel as [|fuel]; [discriminate|]. rewrite exec_break in He. injection He as Hsig Hss. subst ss'.
     destruct (Hin eq_refl) as [a Ha]. subst after. rewrite c_break in *. cbn [code_at] in Hc. destruct Hc as [Hf _].
-    right. split; [auto|]. exists a. split; [reflexivity|].
+    right. left. split; [auto|]. exists a. split; [reflexivity|].
     exists 1%nat, (with_pc s (m_pc s + (a + 1))), []. split; [exact (jump_always im s (a + 1) Hf)|].
     split; [apply sim_with_pc; exact Hsim|]. split; [cbn [with_pc m_pc]; rewrite zlength1; lia|]. split; [reflexivity|rewrite app_nil_r; reflexivity].
+  - (* return v: the value goes to RESULT, RETURN leaves the routine *)
+    intros inl v Hv after im ss s sig ss' fuel _ _ Hir Hd Hsim Hc He.
+    destruct fuel as [|fuel]; [discriminate|]. rewrite exec_return in He. rewrite c_return in *.
+    destruct (eval_rval rt mt fuel false ss v) as [x sa|e sa|sa] eqn:Ev; cbn [sbind] in He; try discriminate.
+    injection He as Hsig Hss. subst sig ss'.
+    apply code_at_app in Hc. destruct Hc as [Hcv Hr]. cbn [code_at] in Hr. destruct Hr as [Hfr _].
+    destruct (c_rval_runs rt mt v (DReg R_RESULT) Hv (plain_ok_result mt v Hv) im ss s x sa fuel Hsim Hcv Ev) as [Hsa [n Hn]]. subst sa.
+    set (k := zlength (c_rval rt mt v (DReg R_RESULT))) in *.
+    set (s1 := put_vm s (DReg R_RESULT) x k) in *.
+    assert (Hs1 : sim ss s1) by (apply sim_put_reg_hidden; [exact Hsim|reflexivity]).
+    destruct (Hir eq_refl) as (ret & F & Hct).
+    set (s2 := advance (with_pc (with_stack (with_frames s1 F) (m_stack s1)) ret)).
+    assert (E2 : esteps 1 im s1 = Some (s2, [])).
+    { apply (estep1 im s1 _ _ _ Hfr). cbn [Machine.exec i_op I0]. rewrite (do_return_steps s1 ret F Hct Hd). reflexivity. }
+    right. right. exists x. split; [reflexivity|]. exists ret, F. split; [exact Hct|].
+    exists (n + 1)%nat, s2, ([] ++ []). split; [eapply esteps_app; eassumption|].
+    split; [destruct Hs1 as [Hr1 Hf1 Hg1 Hv1 Hst1 Hw1 Hu1]; repeat split; assumption|].
+    split; [reflexivity|]. split; [reflexivity|]. split; [reflexivity|]. rewrite app_nil_r. reflexivity.
+  - (* return without a value *)
+    intros inl after im ss s sig ss' fuel _ _ Hir Hd Hsim Hc He.
+    destruct fuel as [|fuel]; [discriminate|]. rewrite exec_return0 in He. rewrite c_return0 in *.
+    injection He as Hsig Hss. subst sig ss'.
+    cbn [code_at] in Hc. destruct Hc as [Hf1 [Hf2 _]].
+    set (s1 := put_vm s (DReg R_RESULT) VNone 1) in *.
+    assert (E1 : esteps 1 im s = Some (s1, [])).
+    { apply (estep1 im s _ _ _ Hf1). change (PReg R_RESULT) with (dest_param (DReg R_RESULT)).
+      rewrite (exec_moveq im s PNone (DReg R_RESULT) VNone eq_refl eq_refl). apply lift_put; reflexivity. }
+    assert (Hs1 : sim ss s1) by (apply sim_put_reg_hidden; [exact Hsim|reflexivity]).
+    destruct (Hir eq_refl) as (ret & F & Hct).
+    set (s2 := advance (with_pc (with_stack (with_frames s1 F) (m_stack s1)) ret)).
+    assert (E2 : esteps 1 im s1 = Some (s2, [])).
+    { apply (estep1 im s1 _ _ _ Hf2). cbn [Machine.exec i_op I0]. rewrite (do_return_steps s1 ret F Hct Hd). reflexivity. }
+    right. right. exists VNone. split; [reflexivity|]. exists ret, F. split; [exact Hct|].
+    exists (1 + 1)%nat, s2, ([] ++ []). split; [eapply esteps_app; eassumption|].
+    split; [destruct Hs1 as [Hr1 Hf1' Hg1 Hv1 Hst1 Hw1 Hu1]; repeat split; assumption|].
+    split; [reflexivity|]. split; [reflexivity|]. split; [reflexivity|]. rewrite app_nil_r. reflexivity.
+  - (* call of a user routine *)
+    intros inl inr f args b d Hb Hf Hpl Hbody IHbody after im ss s sig ss' fuel Hload _ _ Hd Hsim Hc He.
+    destruct fuel as [|[|fuel]]; try discriminate. rewrite exec_call, (call_user fuel ss f args d Hb Hf) in He.
+    rewrite (c_callB after f args b d Hb Hf) in *.
+    set (ps := rd_params d) in *. set (CA := c_args ps args) in *. set (kA := zlength CA) in *.
+    apply code_at_app in Hc. destruct Hc as [Hctx Hc]. cbn [code_at] in Hctx. destruct Hctx as [Hfc _]. rewrite zlength1 in Hc.
+    apply code_at_app in Hc. destruct Hc as [HcA Hc]. fold kA in Hc. cbn [code_at] in Hc. destruct Hc as [Hfj [Hfe _]].
+    destruct (eval_args rt mt fuel false ss args) as [vs sa|e sa|sa] eqn:Ea; cbn [sbind] in He; try discriminate.
+    (* CTX *)
+    set (F := m_frames s) in *.
+    set (s1 := advance (with_frames s (FCall [] false None :: F))).
+    assert (E1 : esteps 1 im s = Some (s1, [])) by (apply (estep1 im s _ _ _ Hfc); reflexivity).
+    assert (Hs1 : simr ss s1).
+    { destruct Hsim as [Hr Hfu Hg Hv Hst Hw Hu]. constructor; cbn [s1 advance with_pc with_frames with_vars m_regs m_globals m_frames m_world m_unnamed vars_of]; assumption. }
+    (* the arguments *)
+    assert (HcA1 : code_at im (m_pc s1) CA) by exact HcA.
+    destruct (args_run args ps Hpl fuel im ss s1 [] F vs sa Hs1 eq_refl HcA1 Ea) as [Hsa (n2 & s2 & p1 & E2 & Hs2 & Hpc2 & Hfr2 & Hst2 & Hbind)]. subst sa.
+    fold CA in Hpc2. fold kA in Hpc2. rewrite Hbind in He.
+    assert (Hpc2' : m_pc s2 = m_pc s + 1 + kA) by (rewrite Hpc2; reflexivity).
+    (* JSR *)
+    destruct (Hload f d Hf) as (addr & rr & Hfind & Hbc).
+    apply code_at_app in Hbc. destruct Hbc as [Hbcode Hbend]. cbn [code_at] in Hbend. destruct Hbend as [Hfend _].
+    set (ret := m_pc s2 + 1).
+    set (s3 := with_pc (with_frames s2 (FCall p1 true (Some ret) :: F)) addr).
+    assert (E3 : esteps 1 im s2 = Some (s3, [])).
+    { assert (Hfj' : fetch im (m_pc s2) = Some (I1 OC_JSR (PStr f))) by (rewrite Hpc2'; exact Hfj).
+      apply (estep1 im s2 _ _ _ Hfj'). cbn [Machine.exec i_op i_p0 I1]. rewrite Hfr2, (not_builtin f Hb), Hfind. reflexivity. }
+    set (ssb := s_with_locals ss (Some p1)) in *.
+    assert (Hs3 : sim ssb s3).
+    { destruct Hs2 as [Hr Hfu Hg Hv Hw Hu]. constructor; cbn [s3 ssb with_pc with_frames with_vars s_with_locals m_regs m_globals m_frames m_world m_unnamed s_regs s_globals s_locals s_world vars_of settled]; try assumption; reflexivity. }
+    assert (Hct3 : call_tail (m_frames s3) = Some (ret, F)) by reflexivity.
+    assert (Hd3 : depth_ok (m_frames s3) (zlength (m_stack s3))) by exact I.
+    assert (Hin3 : in_loop_ok false None) by (intros H; discriminate).
+    assert (Hir3 : in_ret_ok true (m_frames s3)) by (intros _; exists ret, F; exact Hct3).
+    assert (Hbcode3 : code_at im (m_pc s3) (c_stmt rt mt false None (rd_body d))) by exact Hbcode.
+    assert (Hfe' : fetch im ret = Some (I0 OC_END_CTX)).
+    { unfold ret. rewrite Hpc2'. replace (m_pc s + 1 + kA + 1) with (m_pc s + 1 + kA + Z.of_nat 1) by lia. exact Hfe. }
+    assert (Hlen : zlength ([I0 OC_CTX] ++ CA ++ [I1 OC_JSR (PStr f); I0 OC_END_CTX]) = 1 + kA + 2).
+    { unfold zlength. rewrite !app_length, !Nat2Z.inj_add. cbn [length]. unfold kA, zlength. lia. }
+    assert (Hstk : m_stack s3 = m_stack s) by exact Hst2.
+    assert (E13 : esteps (1 + (n2 + 1)) im s = Some (s3, [] ++ ([] ++ []))) by (eapply esteps_app; [exact E1|eapply esteps_app; [exact E2|exact E3]]).
+    destruct (Sem.exec rt mt fuel false ssb (rd_body d)) as [sgb sb|eb sb|sb] eqn:Eb; try discriminate.
+    set (sfin := s_with_locals sb (s_locals ss)) in *.
+    assert (Hss' : ss' = sfin /\ sig = SigNormal) by (destruct sgb; injection He as H1 H2; split; congruence).
+    destruct Hss' as [-> ->].
+    left. split; [reflexivity|]. rewrite Hlen.
+    destruct (IHbody None im ssb s3 sgb sb fuel Hload Hin3 Hir3 Hd3 Hs3 Hbcode3 Eb)
+      as [[Hsgb (n4 & s4 & e4 & E4 & Hs4 & Hpc4 & Hst4 & Ht4)]|[[Hsgb (a' & Ha' & _)]|[v [Hsgb (ret' & F' & Hct' & n4 & s4 & e4 & E4 & Hr4 & Hpc4 & Hfr4 & Hst4 & Ht4)]]]].
+    + (* the body runs into END f: back to the END_CTX of the call *)
+      destruct (fr_eq_facts s4 s3 Hst4) as [Hsk4 [Hct4 Hdp4]].
+      assert (Hd4 : depth_ok (m_frames s4) (zlength (m_stack s4))) by (rewrite Hsk4; apply Hdp4; exact Hd3).
+      rewrite Hct3 in Hct4.
+      set (s5 := with_pc (with_stack (with_frames s4 F) (m_stack s4)) ret).
+      assert (E5 : esteps 1 im s4 = Some (s5, [])).
+      { assert (Hfend' : fetch im (m_pc s4) = Some (I1 OC_END (PStr f))) by (rewrite Hpc4; exact Hfend).
+        apply (estep1 im s4 _ _ _ Hfend'). cbn [Machine.exec i_op i_p0 I1]. rewrite (do_return_steps s4 ret F Hct4 Hd4). reflexivity. }
+      set (s6 := advance s5).
+      assert (E6 : esteps 1 im s5 = Some (s6, [])) by (apply (estep1 im s5 _ _ _ Hfe'); reflexivity).
+      exists ((1 + (n2 + 1)) + (n4 + (1 + 1)))%nat, s6, (([] ++ ([] ++ [])) ++ (e4 ++ ([] ++ []))).
+      split; [eapply esteps_app; [exact E13|eapply esteps_app; [exact E4|eapply esteps_app; [exact E5|exact E6]]]|].
+      split.
+      { destruct Hs4 as [Hr Hfu Hg Hv Hse Hw Hu]. destruct Hsim as [_ _ _ Hv0 Hst0 _ _].
+        constructor; cbn [s6 s5 sfin advance with_pc with_stack with_frames with_vars s_with_locals m_regs m_globals m_frames m_world m_unnamed s_regs s_globals s_locals s_world]; assumption. }
+      split; [change (m_pc s6) with (ret + 1); unfold ret; rewrite Hpc2'; lia|].
+      split; [change (m_stack s6, fr s6) with (m_stack s4, erase F); rewrite Hsk4, Hstk; reflexivity|].
+      cbn [app]. rewrite !app_nil_r. exact Ht4.
+    + discriminate.
+    + (* the body returns: the machine is behind the END_CTX already *)
+      rewrite Hct3 in Hct'. injection Hct' as Hret' HF'. subst ret' F'.
+      exists ((1 + (n2 + 1)) + n4)%nat, s4, (([] ++ ([] ++ [])) ++ e4).
+      split; [eapply esteps_app; [exact E13|exact E4]|].
+      destruct Hr4 as (Hr & Hfu & Hg & Hw & Hu).
+      split.
+      { destruct Hsim as [_ _ _ Hv0 Hst0 _ _].
+        constructor; cbn [sfin s_with_locals s_regs s_globals s_locals s_world]; try assumption; rewrite Hfr4; assumption. }
+      split; [rewrite Hpc4; unfold ret; rewrite Hpc2'; lia|].
+      split; [unfold fr; rewrite Hfr4, Hst4, Hstk; reflexivity|].
+      cbn [app]. exact Ht4.
   - (* if without else *)
-    intros inl c a Hc Ha IHa after im ss s sig ss' fuel Hin Hsim Hcode He.
+    intros inl inr c a Hc Ha IHa after im ss s sig ss' fuel Hload Hin Hir Hd Hsim Hcode He.
     destruct fuel as [|fuel]; [discriminate|]. rewrite exec_if in He. rewrite c_if1_after in *.
     destruct (eval_rval rt mt fuel false ss c) as [x sa|e sa|sa] eqn:Ev; cbn [sbind] in He; try discriminate.
     apply code_at_app in Hcode. destruct Hcode as [Hcc Hrest]. apply code_at_app in Hrest. destruct Hrest as [Hj Hbody]. cbn [code_at] in Hj. destruct Hj as [Hfj _].
@@ -177,7 +452,7 @@ Proof.
     set (s1 := put_vm s (DReg R_RESULT) x k) in *.
     assert (Hs1 : sim ss s1) by (apply sim_put_reg_hidden; [exact Hsim|reflexivity]).
     assert (Hr1 : rf_get (m_regs s1) R_RESULT = Some x) by (unfold s1; cbn [put_vm m_regs]; apply rf_get_set_same).
-    pose proof (proj1 simpleB_no_routine inl a Ha after) as Hnr. rewrite (len_no_routine _ Hnr) in Hfj |- *.
+    pose proof (proj1 simpleB_no_routine inl inr a Ha after) as Hnr. rewrite (len_no_routine _ Hnr) in Hfj |- *.
     set (body := c_stmt rt mt false after a) in *.
     pose proof (jump_if_false im s1 x (zlength body + 1) Hr1 Hfj) as Ej.
     assert (Hlen : zlength (c_rval rt mt c (DReg R_RESULT) ++ [jump JC_IF_FALSE (zlength body + 1)] ++ body) = k + 1 + zlength body).
@@ -186,7 +461,7 @@ Proof.
     + set (s2 := with_pc s1 (m_pc s1 + 1)) in *.
       assert (Hb2 : code_at im (m_pc s2) body).
       { unfold s2. cbn [with_pc m_pc]. unfold s1. cbn [put_vm m_pc]. rewrite zlength1 in Hbody. exact Hbody. }
-      pose proof (IHa after im ss s2 sig ss' fuel Hin (sim_with_pc ss s1 _ Hs1) Hb2 He) as Ho.
+      pose proof (IHa after im ss s2 sig ss' fuel Hload Hin Hir Hd (sim_with_pc ss s1 _ Hs1) Hb2 He) as Ho.
       apply (outcome_after_steps after im ss s ss s2 (n + 1)%nat ([] ++ []) sig ss' body); [eapply esteps_app; eassumption|reflexivity|rewrite app_nil_r; reflexivity| |exact Ho].
       rewrite Hlen. unfold s2, s1. cbn [with_pc put_vm m_pc]. lia.
     + injection He as Hsig He. subst ss'. left. split; [auto|].
@@ -194,12 +469,12 @@ Proof.
       split; [eapply esteps_app; eassumption|]. split; [apply sim_with_pc; exact Hs1|].
       split; [rewrite Hlen; unfold s1; cbn [with_pc put_vm m_pc]; lia|]. split; [reflexivity|rewrite app_nil_r; reflexivity].
   - (* if with else *)
-    intros inl c a b Hc Ha IHa Hb IHb after im ss s sig ss' fuel Hin Hsim Hcode He.
+    intros inl inr c a b Hc Ha IHa Hb IHb after im ss s sig ss' fuel Hload Hin Hir Hd Hsim Hcode He.
     destruct fuel as [|fuel]; [discriminate|]. rewrite exec_if in He. rewrite c_if2_after in *.
-    pose proof (proj1 simpleB_no_routine inl b Hb after) as Hnrb. rewrite (len_no_routine _ Hnrb) in *.
+    pose proof (proj1 simpleB_no_routine inl inr b Hb after) as Hnrb. rewrite (len_no_routine _ Hnrb) in *.
     set (tb := c_stmt rt mt false after b) in *.
     set (after_a := option_map (fun x0 : Z => x0 + 1 + zlength tb) after) in *.
-    pose proof (proj1 simpleB_no_routine inl a Ha after_a) as Hnra. rewrite (len_no_routine _ Hnra) in *.
+    pose proof (proj1 simpleB_no_routine inl inr a Ha after_a) as Hnra. rewrite (len_no_routine _ Hnra) in *.
     set (ta := c_stmt rt mt false after_a a) in *.
     destruct (eval_rval rt mt fuel false ss c) as [x sa|e sa|sa] eqn:Ev; cbn [sbind] in He; try discriminate.
     apply code_at_app in Hcode. destruct Hcode as [Hcc Hrest]. apply code_at_app in Hrest. destruct Hrest as [Hj Hrest]. cbn [code_at] in Hj. destruct Hj as [Hfj _].
@@ -220,31 +495,33 @@ Proof.
       set (s2 := with_pc s1 (m_pc s1 + 1)) in *.
       assert (Hb2 : code_at im (m_pc s2) ta) by (unfold s2; cbn [with_pc m_pc]; rewrite Hk; exact Hthen).
       assert (E2 : esteps (n + 1) im s = Some (s2, [] ++ [])) by (eapply esteps_app; eassumption).
-      destruct (IHa after_a im ss s2 sig ss' fuel (in_loop_ok_map inl after _ Hin) (sim_with_pc ss s1 _ Hs1) Hb2 He) as [[Hsig Hto]|[Hsig (a' & Ha' & Hto)]].
+      destruct (IHa after_a im ss s2 sig ss' fuel Hload (in_loop_ok_map inl after _ Hin) Hir Hd (sim_with_pc ss s1 _ Hs1) Hb2 He) as [[Hsig Hto]|[[Hsig (a' & Ha' & Hto)]|[v [Hsig Hret]]]].
       * left. split; [exact Hsig|]. rewrite Hlen.
         apply (sim_to_after_steps im ss s ss s2 (n + 1)%nat ([] ++ []) ss'); [exact E2|reflexivity|rewrite app_nil_r; reflexivity|].
         replace (m_pc s + (k + 1 + zlength ta + 1 + zlength tb)) with (m_pc s2 + zlength ta + (zlength tb + 1)) by (unfold s2; cbn [with_pc m_pc]; rewrite Hk; lia).
         apply sim_to_jump; [exact Hto|]. unfold s2. cbn [with_pc m_pc]. rewrite Hk. exact Hfj2.
-      * right. split; [exact Hsig|]. unfold after_a in Ha'. destruct after as [a0|]; cbn [option_map] in Ha'; [|discriminate]. injection Ha' as Ha'. subst a'.
+      * right. left. split; [exact Hsig|]. unfold after_a in Ha'. destruct after as [a0|]; cbn [option_map] in Ha'; [|discriminate]. injection Ha' as Ha'. subst a'.
         exists a0. split; [reflexivity|]. rewrite Hlen.
         apply (sim_to_after_steps im ss s ss s2 (n + 1)%nat ([] ++ []) ss'); [exact E2|reflexivity|rewrite app_nil_r; reflexivity|].
         replace (m_pc s + (k + 1 + zlength ta + 1 + zlength tb) + a0) with (m_pc s2 + zlength ta + (a0 + 1 + zlength tb)) by (unfold s2; cbn [with_pc m_pc]; rewrite Hk; lia).
         exact Hto.
+      * right. right. exists v. split; [exact Hsig|].
+        exact (returned_rebase im ss s ss s2 (n + 1)%nat ([] ++ []) ss' E2 eq_refl eq_refl (eq_sym (app_nil_r _)) Hret).
     + (* else-branch *)
       set (s2 := with_pc s1 (m_pc s1 + (zlength ta + 2))) in *.
       assert (Hb2 : code_at im (m_pc s2) tb).
       { unfold s2. cbn [with_pc m_pc]. rewrite Hk. replace (m_pc s + k + (zlength ta + 2)) with (m_pc s + k + 1 + zlength ta + 1) by lia. exact Helse. }
-      pose proof (IHb after im ss s2 sig ss' fuel Hin (sim_with_pc ss s1 _ Hs1) Hb2 He) as Ho.
+      pose proof (IHb after im ss s2 sig ss' fuel Hload Hin Hir Hd (sim_with_pc ss s1 _ Hs1) Hb2 He) as Ho.
       apply (outcome_after_steps after im ss s ss s2 (n + 1)%nat ([] ++ []) sig ss' tb); [eapply esteps_app; eassumption|reflexivity|rewrite app_nil_r; reflexivity| |exact Ho].
       rewrite Hlen. unfold s2. cbn [with_pc m_pc]. rewrite Hk. lia.
   - (* block *)
-    intros inl l Hl IH after im ss s sig ss' fuel Hin Hsim Hc He. destruct fuel as [|fuel]; [discriminate|].
-    rewrite exec_block in He. exact (IH after im ss s sig ss' fuel Hin Hsim Hc He).
+    intros inl inr l Hl IH after im ss s sig ss' fuel Hload Hin Hir Hd Hsim Hc He. destruct fuel as [|fuel]; [discriminate|].
+    rewrite exec_block in He. exact (IH after im ss s sig ss' fuel Hload Hin Hir Hd Hsim Hc He).
   - (* while loop *)
-    intros inl c a Hc Ha IHa after im ss s sig ss' fuel _ Hsim Hcode He.
+    intros inl inr c a Hc Ha IHa after im ss s sig ss' fuel Hload _ Hir Hd Hsim Hcode He.
     destruct fuel as [|[|fuel]]; try discriminate. rewrite exec_while in He.
     rewrite c_loop_after, c_whileB, app_nil_r in *.
-    pose proof (proj1 simpleB_no_routine true a Ha (Some 1)) as Hnrb.
+    pose proof (proj1 simpleB_no_routine true inr a Ha (Some 1)) as Hnrb.
     pose proof (c_rval_no_routine rt mt c (DReg R_RESULT) Hc (plain_ok_result mt c Hc)) as Hnrt.
     rewrite (len_no_routine _ Hnrb), (len_no_routine _ Hnrt) in *.
     set (T := c_rval rt mt c (DReg R_RESULT)) in *. set (B := c_stmt rt mt false (Some 1) a) in *.
@@ -261,12 +538,17 @@ Proof.
     assert (E1 : esteps 1 im s = Some (s1, [])) by (apply (estep1 im s _ _ _ Hfl); reflexivity).
     assert (Hs1 : sim ss s1) by (destruct Hsim; constructor; cbn; assumption).
     assert (Hin1 : in_loop_ok true (Some 1)) by (intros _; exists 1; reflexivity).
-    assert (Hiter : forall f ss1 sx sg ssx lv,
-              sim ss1 sx -> m_pc sx = P0 + 1 -> m_frames sx = FLoop lv d :: m_frames s -> m_stack sx = m_stack s ->
+    assert (Hiter : forall f ss1 sx sg ssx lv r,
+              sim ss1 sx -> m_pc sx = P0 + 1 -> m_frames sx = FLoop lv d :: r -> erase r = erase (m_frames s) -> m_stack sx = m_stack s ->
               iterate rt mt f false ss1 (Some c) None None None a = ROk sg ssx ->
-              sg = SigNormal /\ exists n sy evs, esteps n im sx = Some (sy, evs) /\ sim ssx sy /\ m_pc sy = P0 + (kT + kB + 4) /\
-                                           (m_stack sy, m_frames sy) = (m_stack s, m_frames s) /\ rev (s_trace ssx) = rev (s_trace ss1) ++ evs).
-    { induction f as [|f IHf]; intros ss1 sx sg ssx lv Hsx Hpcx Hfrx Hstx Hit; [discriminate|].
+              (sg = SigNormal /\ exists n sy evs, esteps n im sx = Some (sy, evs) /\ sim ssx sy /\ m_pc sy = P0 + (kT + kB + 4) /\
+                                           (m_stack sy, fr sy) = (m_stack s, fr s) /\ rev (s_trace ssx) = rev (s_trace ss1) ++ evs) \/
+              (exists v, sg = SigReturn v /\ returned im ss1 sx ssx)).
+    { induction f as [|f IHf]; intros ss1 sx sg ssx lv r Hsx Hpcx Hfrx Herx Hstx Hit; [discriminate|].
+      assert (Hctx : call_tail (m_frames sx) = call_tail (m_frames s)) by (rewrite Hfrx; cbn [call_tail]; apply call_tail_fr_eq; exact Herx).
+      assert (Hdx : depth_ok (m_frames sx) (zlength (m_stack sx))).
+      { rewrite Hfrx, Hstx. cbn [depth_ok]. split; [reflexivity|]. apply (depth_ok_fr_eq (m_frames s) r); [symmetry; exact Herx|exact Hd]. }
+      assert (Hirx : in_ret_ok inr (m_frames sx)) by (intros Hi; destruct (Hir Hi) as (ret & F & H); exists ret, F; rewrite Hctx; exact H).
       rewrite iterate_while in Hit.
       destruct (eval_rval rt mt f false ss1 c) as [x sa|e sa|sa] eqn:Ev; cbn [sbind] in Hit; try discriminate.
       assert (HcTx : code_at im (m_pc sx) T) by (rewrite Hpcx; exact HcT).
@@ -282,57 +564,66 @@ Proof.
       - destruct (Sem.exec rt mt f false ss1 a) as [sgb sb|eb sb|sb] eqn:Eb; cbn [sbind] in Hit; try discriminate.
         set (s3 := with_pc s2 (m_pc s2 + 1)) in *.
         assert (HcB3 : code_at im (m_pc s3) B) by (unfold s3; cbn [with_pc m_pc]; rewrite Hpc2; exact HcB).
-        assert (Hst3 : m_stack s3 = m_stack s /\ m_frames s3 = FLoop lv d :: m_frames s) by (split; assumption).
+        assert (Hst3 : m_stack s3 = m_stack s /\ m_frames s3 = FLoop lv d :: r) by (split; assumption).
         destruct Hst3 as [Hsk3 Hfk3].
-        destruct (IHa (Some 1) im ss1 s3 sgb sb f Hin1 (sim_with_pc ss1 s2 _ Hs2) HcB3 Eb)
-          as [[Hsgb (n3 & s4 & e4 & E4 & Hs4 & Hpc4 & Hst4 & Ht4)]|[Hsgb (a' & Ha' & (n3 & s4 & e4 & E4 & Hs4 & Hpc4 & Hst4 & Ht4))]]; subst sgb.
+        assert (E23 : esteps (n + 1) im sx = Some (s3, [] ++ [])) by (eapply esteps_app; eassumption).
+        destruct (IHa (Some 1) im ss1 s3 sgb sb f Hload Hin1 Hirx Hdx (sim_with_pc ss1 s2 _ Hs2) HcB3 Eb)
+          as [[Hsgb (n3 & s4 & e4 & E4 & Hs4 & Hpc4 & Hst4 & Ht4)]|[[Hsgb (a' & Ha' & (n3 & s4 & e4 & E4 & Hs4 & Hpc4 & Hst4 & Ht4))]|[v [Hsgb Hret]]]]; subst sgb.
         + (* the body ends normally: back to the test *)
           assert (Hfjb4 : fetch im (m_pc s4) = Some (jump JC_ALWAYS (- (kT + 1 + kB)))).
           { rewrite Hpc4. unfold s3. cbn [with_pc m_pc]. rewrite Hpc2. fold B. fold kB. exact Hfjb. }
           pose proof (jump_always im s4 (- (kT + 1 + kB)) Hfjb4) as Ejb.
           set (s5 := with_pc s4 (m_pc s4 + - (kT + 1 + kB))) in *.
-          assert (Hsk4 : m_stack s4 = m_stack s) by (transitivity (m_stack s3); [exact (f_equal fst Hst4)|exact Hsk3]).
-          assert (Hfk4 : m_frames s4 = FLoop lv d :: m_frames s) by (transitivity (m_frames s3); [exact (f_equal snd Hst4)|exact Hfk3]).
-          destruct (IHf sb s5 sg ssx lv (sim_with_pc sb s4 _ Hs4)) as [Hsg (n6 & s6 & e6 & E6 & Hs6 & Hpc6 & Hst6 & Ht6)].
+          destruct (loop_frame_kept s4 s3 s lv d r Hst4 Hsk3 Hfk3 Herx) as [Hsk4 (r4 & Hfk4 & Her4)].
+          assert (E25 : esteps (n + (1 + (n3 + 1))) im sx = Some (s5, [] ++ ([] ++ (e4 ++ [])))) by (eapply esteps_app; [exact Hn|eapply esteps_app; [exact Ej|eapply esteps_app; [exact E4|exact Ejb]]]).
+          destruct (IHf sb s5 sg ssx lv r4 (sim_with_pc sb s4 _ Hs4)) as [[Hsg (n6 & s6 & e6 & E6 & Hs6 & Hpc6 & Hst6 & Ht6)]|[v [Hsg Hret]]].
           { unfold s5. cbn [with_pc m_pc]. rewrite Hpc4. unfold s3. cbn [with_pc m_pc]. rewrite Hpc2. fold B. fold kB. lia. }
           { exact Hfk4. }
+          { exact Her4. }
           { exact Hsk4. }
           { exact Hit. }
-          split; [exact Hsg|]. exists (n + (1 + (n3 + (1 + n6))))%nat, s6, ([] ++ ([] ++ (e4 ++ ([] ++ e6)))).
-          split; [eapply esteps_app; [exact Hn|eapply esteps_app; [exact Ej|eapply esteps_app; [exact E4|eapply esteps_app; [exact Ejb|exact E6]]]]|].
-          split; [exact Hs6|]. split; [exact Hpc6|]. split; [exact Hst6|]. cbn [app]. rewrite Ht6, Ht4, app_assoc. reflexivity.
+          * left. split; [exact Hsg|]. exists ((n + (1 + (n3 + 1))) + n6)%nat, s6, (([] ++ ([] ++ (e4 ++ []))) ++ e6).
+            split; [eapply esteps_app; [exact E25|exact E6]|].
+            split; [exact Hs6|]. split; [exact Hpc6|]. split; [exact Hst6|]. cbn [app]. rewrite Ht6, Ht4, app_nil_r, app_assoc. reflexivity.
+          * right. exists v. split; [exact Hsg|].
+            apply (returned_rebase im ss1 sx sb s5 (n + (1 + (n3 + 1)))%nat ([] ++ ([] ++ (e4 ++ []))) ssx E25); [|rewrite Hstx; exact Hsk4|cbn [app]; rewrite app_nil_r; exact Ht4|exact Hret].
+            change (m_frames s5) with (m_frames s4). rewrite Hfk4, Hctx. cbn [call_tail]. apply call_tail_fr_eq. exact Her4.
         + (* the body breaks: it has jumped to END_LOOP *)
           injection Ha' as Ha'. subst a'. injection Hit as Hsg Hss. subst ssx.
-          assert (Hsk4 : m_stack s4 = m_stack s) by (transitivity (m_stack s3); [exact (f_equal fst Hst4)|exact Hsk3]).
-          assert (Hfk4 : m_frames s4 = FLoop lv d :: m_frames s) by (transitivity (m_frames s3); [exact (f_equal snd Hst4)|exact Hfk3]).
+          destruct (loop_frame_kept s4 s3 s lv d r Hst4 Hsk3 Hfk3 Herx) as [Hsk4 (r4 & Hfk4 & Her4)].
           assert (Hfe4 : fetch im (m_pc s4) = Some (I0 OC_END_LOOP)).
           { rewrite Hpc4. unfold s3. cbn [with_pc m_pc]. rewrite Hpc2. fold B. fold kB. exact Hfe. }
-          destruct (end_loop_step im sb s4 s lv Hs4 (sim_frames _ _ Hsim) Hfe4 Hfk4 Hsk4) as (s5 & E5 & Hs5 & Hpc5 & Hst5).
-          split; [auto|]. exists (n + (1 + (n3 + 1)))%nat, s5, ([] ++ ([] ++ (e4 ++ []))).
+          destruct (end_loop_step im sb s4 s lv r4 Hs4 Hfe4 Hfk4 Her4 Hsk4) as (s5 & E5 & Hs5 & Hpc5 & Hst5).
+          left. split; [auto|]. exists (n + (1 + (n3 + 1)))%nat, s5, ([] ++ ([] ++ (e4 ++ []))).
           split; [eapply esteps_app; [exact Hn|eapply esteps_app; [exact Ej|eapply esteps_app; [exact E4|exact E5]]]|].
           split; [exact Hs5|]. split; [rewrite Hpc5, Hpc4; unfold s3; cbn [with_pc m_pc]; rewrite Hpc2; fold B; fold kB; lia|].
           split; [exact Hst5|]. cbn [app]. rewrite app_nil_r. exact Ht4.
+        + (* the body returns: the machine has left the routine *)
+          injection Hit as Hsg Hss. subst sg ssx. right. exists v. split; [reflexivity|].
+          exact (returned_rebase im ss1 sx ss1 s3 (n + 1)%nat ([] ++ []) sb E23 eq_refl eq_refl (eq_sym (app_nil_r _)) Hret).
       - (* the condition fails: jump to END_LOOP *)
         injection Hit as Hsg Hss. subst ssx.
         set (s3 := with_pc s2 (m_pc s2 + (kB + 2))) in *.
         assert (Hfe3 : fetch im (m_pc s3) = Some (I0 OC_END_LOOP)).
         { unfold s3. cbn [with_pc m_pc]. rewrite Hpc2. replace (P0 + 1 + kT + (kB + 2)) with (P0 + 1 + kT + 1 + kB + 1) by lia. exact Hfe. }
-        destruct (end_loop_step im ss1 s3 s lv (sim_with_pc ss1 s2 _ Hs2) (sim_frames _ _ Hsim) Hfe3 Hfrx Hstx) as (s4 & E4 & Hs4 & Hpc4 & Hst4).
-        split; [auto|]. exists (n + (1 + 1))%nat, s4, ([] ++ ([] ++ [])).
+        destruct (end_loop_step im ss1 s3 s lv r (sim_with_pc ss1 s2 _ Hs2) Hfe3 Hfrx Herx Hstx) as (s4 & E4 & Hs4 & Hpc4 & Hst4).
+        left. split; [auto|]. exists (n + (1 + 1))%nat, s4, ([] ++ ([] ++ [])).
         split; [eapply esteps_app; [exact Hn|eapply esteps_app; [exact Ej|exact E4]]|].
         split; [exact Hs4|]. split; [rewrite Hpc4; unfold s3; cbn [with_pc m_pc]; rewrite Hpc2; lia|].
         split; [exact Hst4|]. rewrite app_nil_r. reflexivity. }
-    destruct (Hiter fuel ss s1 sig ss' [] Hs1 eq_refl eq_refl eq_refl He) as [Hsig (n & sy & evs & En & Hsy & Hpcy & Hsty & Hty)].
-    left. split; [exact Hsig|]. exists (1 + n)%nat, sy, ([] ++ evs).
-    split; [eapply esteps_app; [exact E1|exact En]|]. split; [exact Hsy|].
-    split; [rewrite Hpcy; unfold kT, kB, zlength; rewrite !app_length; cbn [length]; rewrite !Nat2Z.inj_add; lia|].
-    split; [exact Hsty|exact Hty].
+    destruct (Hiter fuel ss s1 sig ss' [] (m_frames s) Hs1 eq_refl eq_refl eq_refl eq_refl He) as [[Hsig (n & sy & evs & En & Hsy & Hpcy & Hsty & Hty)]|[v [Hsig Hret]]].
+    + left. split; [exact Hsig|]. exists (1 + n)%nat, sy, ([] ++ evs).
+      split; [eapply esteps_app; [exact E1|exact En]|]. split; [exact Hsy|].
+      split; [rewrite Hpcy; unfold kT, kB, zlength; rewrite !app_length; cbn [length]; rewrite !Nat2Z.inj_add; lia|].
+      split; [exact Hsty|exact Hty].
+    + right. right. exists v. split; [exact Hsig|].
+      exact (returned_rebase im ss s ss s1 1%nat [] ss' E1 eq_refl eq_refl (eq_sym (app_nil_r _)) Hret).
   - (* counted loop *)
-    intros inl cn a Hn Ha IHa after im ss s sig ss' fuel _ Hsim Hcode He.
+    intros inl inr cn a Hn Ha IHa after im ss s sig ss' fuel Hload _ Hir Hd Hsim Hcode He.
     destruct fuel as [|[|fuel]]; try discriminate. rewrite exec_count in He.
     rewrite c_loop_after, c_count in *.
     change (len (counter_post None)) with 4 in *.
-    pose proof (proj1 simpleB_no_routine true a Ha (Some (4 + 1))) as Hnrb.
+    pose proof (proj1 simpleB_no_routine true inr a Ha (Some (4 + 1))) as Hnrb.
     assert (Hnri : forallb not_routine (c_stmt rt mt false (Some (4 + 1)) a ++ counter_post None) = true) by (rewrite forallb_app, Hnrb; reflexivity).
     rewrite (len_no_routine _ Hnri) in *. change (len counter_test) with 4 in *.
     set (N := c_rval rt mt cn (DLoop LV_COUNTER)) in *. set (B := c_stmt rt mt false (Some (4 + 1)) a) in *.
@@ -358,16 +649,21 @@ Proof.
     set (s2 := with_counter s1 cnt kN) in *.
     assert (Hs2 : sim ss s2) by (apply sim_with_counter; exact Hs1).
     assert (Hin1 : in_loop_ok true (Some (4 + 1))) by (intros _; exists (4 + 1); reflexivity).
-    assert (Hiter : forall f ss1 sx sg ssx lv c0,
-              sim ss1 sx -> m_pc sx = P0 + 1 + kN -> m_frames sx = FLoop lv d :: m_frames s -> lv_get lv LV_COUNTER = Some c0 -> m_stack sx = m_stack s ->
+    assert (Hiter : forall f ss1 sx sg ssx lv c0 r,
+              sim ss1 sx -> m_pc sx = P0 + 1 + kN -> m_frames sx = FLoop lv d :: r -> erase r = erase (m_frames s) -> lv_get lv LV_COUNTER = Some c0 -> m_stack sx = m_stack s ->
               iterate rt mt f false ss1 None (Some c0) None None a = ROk sg ssx ->
-              sg = SigNormal /\ exists n sy evs, esteps n im sx = Some (sy, evs) /\ sim ssx sy /\ m_pc sy = P0 + (kN + kB + 12) /\
-                                           (m_stack sy, m_frames sy) = (m_stack s, m_frames s) /\ rev (s_trace ssx) = rev (s_trace ss1) ++ evs).
-    { induction f as [|f IHf]; intros ss1 sx sg ssx lv c0 Hsx Hpcx Hfrx Hlvx Hstx Hit; [discriminate|].
+              (sg = SigNormal /\ exists n sy evs, esteps n im sx = Some (sy, evs) /\ sim ssx sy /\ m_pc sy = P0 + (kN + kB + 12) /\
+                                           (m_stack sy, fr sy) = (m_stack s, fr s) /\ rev (s_trace ssx) = rev (s_trace ss1) ++ evs) \/
+              (exists v, sg = SigReturn v /\ returned im ss1 sx ssx)).
+    { induction f as [|f IHf]; intros ss1 sx sg ssx lv c0 r Hsx Hpcx Hfrx Herx Hlvx Hstx Hit; [discriminate|].
+      assert (Hctx : call_tail (m_frames sx) = call_tail (m_frames s)) by (rewrite Hfrx; cbn [call_tail]; apply call_tail_fr_eq; exact Herx).
+      assert (Hdx : depth_ok (m_frames sx) (zlength (m_stack sx))).
+      { rewrite Hfrx, Hstx. cbn [depth_ok]. split; [reflexivity|]. apply (depth_ok_fr_eq (m_frames s) r); [symmetry; exact Herx|exact Hd]. }
+      assert (Hirx : in_ret_ok inr (m_frames sx)) by (intros Hi; destruct (Hir Hi) as (ret & F & H); exists ret, F; rewrite Hctx; exact H).
       rewrite iterate_count in Hit.
       destruct (positive c0) as [go|e] eqn:Epos; cbn [lift_res sbind] in Hit; [|discriminate].
       assert (HcTx : code_at im (m_pc sx) counter_test) by (rewrite Hpcx; exact HcT).
-      destruct (counter_test_steps im sx lv d (m_frames s) c0 go Hfrx Hlvx Epos HcTx) as (res & Et & Hres).
+      destruct (counter_test_steps im sx lv d r c0 go Hfrx Hlvx Epos HcTx) as (res & Et & Hres).
       set (s3 := put_vm sx (DReg R_RESULT) res 4) in *.
       assert (Hs3 : sim ss1 s3) by (apply sim_put_reg_hidden; [exact Hsx|reflexivity]).
       assert (Hr3 : rf_get (m_regs s3) R_RESULT = Some res) by (unfold s3; cbn [put_vm m_regs]; apply rf_get_set_same).
@@ -378,69 +674,80 @@ Proof.
       - destruct (Sem.exec rt mt f false ss1 a) as [sgb sb|eb sb|sb] eqn:Eb; cbn [sbind] in Hit; try discriminate.
         set (s4 := with_pc s3 (m_pc s3 + 1)) in *.
         assert (HcB4 : code_at im (m_pc s4) B) by (unfold s4; cbn [with_pc m_pc]; rewrite Hpc3; exact HcB).
-        assert (Hst4 : m_stack s4 = m_stack s /\ m_frames s4 = FLoop lv d :: m_frames s) by (split; assumption).
+        assert (Hst4 : m_stack s4 = m_stack s /\ m_frames s4 = FLoop lv d :: r) by (split; assumption).
         destruct Hst4 as [Hsk4 Hfk4].
-        destruct (IHa (Some (4 + 1)) im ss1 s4 sgb sb f Hin1 (sim_with_pc ss1 s3 _ Hs3) HcB4 Eb)
-          as [[Hsgb (n5 & s5 & e5 & E5 & Hs5 & Hpc5 & Hst5 & Ht5)]|[Hsgb (a' & Ha' & (n5 & s5 & e5 & E5 & Hs5 & Hpc5 & Hst5 & Ht5))]]; subst sgb.
+        assert (E34 : esteps (4 + 1) im sx = Some (s4, [] ++ [])) by (eapply esteps_app; eassumption).
+        destruct (IHa (Some (4 + 1)) im ss1 s4 sgb sb f Hload Hin1 Hirx Hdx (sim_with_pc ss1 s3 _ Hs3) HcB4 Eb)
+          as [[Hsgb (n5 & s5 & e5 & E5 & Hs5 & Hpc5 & Hst5 & Ht5)]|[[Hsgb (a' & Ha' & (n5 & s5 & e5 & E5 & Hs5 & Hpc5 & Hst5 & Ht5))]|[v [Hsgb Hret]]]]; subst sgb.
         + (* the body ends normally: count down, back to the test *)
           destruct (sub1 c0) as [c1|e] eqn:Esub; cbn [bind] in Hit; [|discriminate].
-          assert (Hsk5 : m_stack s5 = m_stack s) by (transitivity (m_stack s4); [exact (f_equal fst Hst5)|exact Hsk4]).
-          assert (Hfk5 : m_frames s5 = FLoop lv d :: m_frames s) by (transitivity (m_frames s4); [exact (f_equal snd Hst5)|exact Hfk4]).
+          destruct (loop_frame_kept s5 s4 s lv d r Hst5 Hsk4 Hfk4 Herx) as [Hsk5 (r5 & Hfk5 & Her5)].
           assert (Hpc5' : m_pc s5 = P0 + 1 + kN + 4 + 1 + kB) by (rewrite Hpc5; unfold s4; cbn [with_pc m_pc]; rewrite Hpc3; fold B; fold kB; reflexivity).
           assert (HcP5 : code_at im (m_pc s5) (counter_post None)) by (rewrite Hpc5'; exact HcP).
-          pose proof (counter_post_steps im s5 lv d (m_frames s) c0 c1 Hfk5 Hlvx Esub HcP5) as E6.
+          pose proof (counter_post_steps im s5 lv d r5 c0 c1 Hfk5 Hlvx Esub HcP5) as E6.
           set (s6 := with_counter s5 c1 4) in *.
           assert (Hs6 : sim sb s6) by (apply sim_with_counter; exact Hs5).
           assert (Hfjb6 : fetch im (m_pc s6) = Some (jump JC_ALWAYS (- (4 + 1 + (kB + 4))))).
           { unfold s6. cbn [with_counter m_pc]. rewrite Hpc5'. replace (P0 + 1 + kN + 4 + 1 + kB + 4) with (P0 + 1 + kN + 4 + 1 + (kB + 4)) by lia. exact Hfjb. }
           pose proof (jump_always im s6 (- (4 + 1 + (kB + 4))) Hfjb6) as Ejb.
           set (s7 := with_pc s6 (m_pc s6 + - (4 + 1 + (kB + 4)))) in *.
-          destruct (IHf sb s7 sg ssx (lv_set lv LV_COUNTER c1) c1 (sim_with_pc sb s6 _ Hs6)) as [Hsg (n8 & s8 & e8 & E8 & Hs8 & Hpc8 & Hst8 & Ht8)].
+          assert (E37 : esteps (4 + (1 + (n5 + (4 + 1)))) im sx = Some (s7, [] ++ ([] ++ (e5 ++ ([] ++ []))))) by (eapply esteps_app; [exact Et|eapply esteps_app; [exact Ej|eapply esteps_app; [exact E5|eapply esteps_app; [exact E6|exact Ejb]]]]).
+          destruct (IHf sb s7 sg ssx (lv_set lv LV_COUNTER c1) c1 r5 (sim_with_pc sb s6 _ Hs6)) as [[Hsg (n8 & s8 & e8 & E8 & Hs8 & Hpc8 & Hst8 & Ht8)]|[v [Hsg Hret]]].
           { unfold s7. cbn [with_pc m_pc]. unfold s6. cbn [with_counter m_pc]. rewrite Hpc5'. lia. }
           { unfold s7, s6. cbn [with_pc with_counter m_frames]. rewrite Hfk5. reflexivity. }
+          { exact Her5. }
           { apply lv_get_set. }
           { exact Hsk5. }
           { exact Hit. }
-          split; [exact Hsg|]. exists (4 + (1 + (n5 + (4 + (1 + n8)))))%nat, s8, ([] ++ ([] ++ (e5 ++ ([] ++ ([] ++ e8))))).
-          split; [eapply esteps_app; [exact Et|eapply esteps_app; [exact Ej|eapply esteps_app; [exact E5|eapply esteps_app; [exact E6|eapply esteps_app; [exact Ejb|exact E8]]]]]|].
-          split; [exact Hs8|]. split; [exact Hpc8|]. split; [exact Hst8|]. cbn [app]. rewrite Ht8, Ht5, app_assoc. reflexivity.
+          * left. split; [exact Hsg|]. exists ((4 + (1 + (n5 + (4 + 1)))) + n8)%nat, s8, (([] ++ ([] ++ (e5 ++ ([] ++ [])))) ++ e8).
+            split; [eapply esteps_app; [exact E37|exact E8]|].
+            split; [exact Hs8|]. split; [exact Hpc8|]. split; [exact Hst8|]. cbn [app]. rewrite Ht8, Ht5, app_nil_r, app_assoc. reflexivity.
+          * right. exists v. split; [exact Hsg|].
+            apply (returned_rebase im ss1 sx sb s7 (4 + (1 + (n5 + (4 + 1))))%nat ([] ++ ([] ++ (e5 ++ ([] ++ [])))) ssx E37); [|rewrite Hstx; exact Hsk5|cbn [app]; rewrite app_nil_r; exact Ht5|exact Hret].
+            unfold s7, s6. cbn [with_pc with_counter m_frames]. rewrite Hfk5, Hctx. cbn [call_tail]. apply call_tail_fr_eq. exact Her5.
         + (* the body breaks: it has jumped over the count-down to END_LOOP *)
           injection Ha' as Ha'. subst a'. injection Hit as Hsg Hss. subst ssx.
-          assert (Hsk5 : m_stack s5 = m_stack s) by (transitivity (m_stack s4); [exact (f_equal fst Hst5)|exact Hsk4]).
-          assert (Hfk5 : m_frames s5 = FLoop lv d :: m_frames s) by (transitivity (m_frames s4); [exact (f_equal snd Hst5)|exact Hfk4]).
+          destruct (loop_frame_kept s5 s4 s lv d r Hst5 Hsk4 Hfk4 Herx) as [Hsk5 (r5 & Hfk5 & Her5)].
           assert (Hfe5 : fetch im (m_pc s5) = Some (I0 OC_END_LOOP)).
           { rewrite Hpc5. unfold s4. cbn [with_pc m_pc]. rewrite Hpc3. fold B. fold kB.
             replace (P0 + 1 + kN + 4 + 1 + kB + 5) with (P0 + 1 + kN + 4 + 1 + (kB + 4) + 1) by lia. exact Hfe. }
-          destruct (end_loop_step im sb s5 s lv Hs5 (sim_frames _ _ Hsim) Hfe5 Hfk5 Hsk5) as (s6 & E6 & Hs6 & Hpc6 & Hst6).
-          split; [auto|]. exists (4 + (1 + (n5 + 1)))%nat, s6, ([] ++ ([] ++ (e5 ++ []))).
+          destruct (end_loop_step im sb s5 s lv r5 Hs5 Hfe5 Hfk5 Her5 Hsk5) as (s6 & E6 & Hs6 & Hpc6 & Hst6).
+          left. split; [auto|]. exists (4 + (1 + (n5 + 1)))%nat, s6, ([] ++ ([] ++ (e5 ++ []))).
           split; [eapply esteps_app; [exact Et|eapply esteps_app; [exact Ej|eapply esteps_app; [exact E5|exact E6]]]|].
           split; [exact Hs6|]. split; [rewrite Hpc6, Hpc5; unfold s4; cbn [with_pc m_pc]; rewrite Hpc3; fold B; fold kB; lia|].
           split; [exact Hst6|]. cbn [app]. rewrite app_nil_r. exact Ht5.
+        + (* the body returns *)
+          injection Hit as Hsg Hss. subst sg ssx. right. exists v. split; [reflexivity|].
+          exact (returned_rebase im ss1 sx ss1 s4 (4 + 1)%nat ([] ++ []) sb E34 eq_refl eq_refl (eq_sym (app_nil_r _)) Hret).
       - (* the count is used up *)
         injection Hit as Hsg Hss. subst ssx.
         set (s4 := with_pc s3 (m_pc s3 + (kB + 4 + 2))) in *.
         assert (Hfe4 : fetch im (m_pc s4) = Some (I0 OC_END_LOOP)).
         { unfold s4. cbn [with_pc m_pc]. rewrite Hpc3. replace (P0 + 1 + kN + 4 + (kB + 4 + 2)) with (P0 + 1 + kN + 4 + 1 + (kB + 4) + 1) by lia. exact Hfe. }
-        destruct (end_loop_step im ss1 s4 s lv (sim_with_pc ss1 s3 _ Hs3) (sim_frames _ _ Hsim) Hfe4 Hfrx Hstx) as (s5 & E5 & Hs5 & Hpc5 & Hst5).
-        split; [auto|]. exists (4 + (1 + 1))%nat, s5, ([] ++ ([] ++ [])).
+        destruct (end_loop_step im ss1 s4 s lv r (sim_with_pc ss1 s3 _ Hs3) Hfe4 Hfrx Herx Hstx) as (s5 & E5 & Hs5 & Hpc5 & Hst5).
+        left. split; [auto|]. exists (4 + (1 + 1))%nat, s5, ([] ++ ([] ++ [])).
         split; [eapply esteps_app; [exact Et|eapply esteps_app; [exact Ej|exact E5]]|].
         split; [exact Hs5|]. split; [rewrite Hpc5; unfold s4; cbn [with_pc m_pc]; rewrite Hpc3; lia|].
         split; [exact Hst5|]. rewrite app_nil_r. reflexivity. }
-    destruct (Hiter fuel ss s2 sig ss' (lv_set [] LV_COUNTER cnt) cnt Hs2) as [Hsig (n & sy & evs & En & Hsy & Hpcy & Hsty & Hty)].
+    destruct (Hiter fuel ss s2 sig ss' (lv_set [] LV_COUNTER cnt) cnt (m_frames s) Hs2) as [[Hsig (n & sy & evs & En & Hsy & Hpcy & Hsty & Hty)]|[v [Hsig Hret]]].
     { unfold s2, s1. cbn [with_counter advance with_pc with_frames with_vars m_pc]. fold P0. reflexivity. }
+    { reflexivity. }
     { reflexivity. }
     { apply lv_get_set. }
     { reflexivity. }
     { exact He. }
-    left. split; [exact Hsig|]. exists (1 + (nN + n))%nat, sy, ([] ++ ([] ++ evs)).
-    split; [eapply esteps_app; [exact E1|eapply esteps_app; [exact HnN|exact En]]|]. split; [exact Hsy|].
-    split; [rewrite Hpcy; unfold kN, kB, zlength; rewrite !app_length; cbn [length]; rewrite !Nat2Z.inj_add; change (Z.of_nat (length counter_test)) with 4; change (Z.of_nat (length (counter_post None))) with 4; lia|].
-    split; [exact Hsty|exact Hty].
+    + left. split; [exact Hsig|]. exists (1 + (nN + n))%nat, sy, ([] ++ ([] ++ evs)).
+      split; [eapply esteps_app; [exact E1|eapply esteps_app; [exact HnN|exact En]]|]. split; [exact Hsy|].
+      split; [rewrite Hpcy; unfold kN, kB, zlength; rewrite !app_length; cbn [length]; rewrite !Nat2Z.inj_add; change (Z.of_nat (length counter_test)) with 4; change (Z.of_nat (length (counter_post None))) with 4; lia|].
+      split; [exact Hsty|exact Hty].
+    + right. right. exists v. split; [exact Hsig|].
+      assert (E12 : esteps (1 + nN) im s = Some (s2, [] ++ [])) by (eapply esteps_app; [exact E1|exact HnN]).
+      exact (returned_rebase im ss s ss s2 (1 + nN)%nat ([] ++ []) ss' E12 eq_refl eq_refl (eq_sym (app_nil_r _)) Hret).
   - (* endless repeat: left only by break *)
-    intros inl a Ha IHa after im ss s sig ss' fuel _ Hsim Hcode He.
+    intros inl inr a Ha IHa after im ss s sig ss' fuel Hload _ Hir Hd Hsim Hcode He.
     destruct fuel as [|[|fuel]]; try discriminate. rewrite exec_infinite in He.
     rewrite c_loop_after, c_infinite, app_nil_r in *.
-    pose proof (proj1 simpleB_no_routine true a Ha (Some 1)) as Hnrb.
+    pose proof (proj1 simpleB_no_routine true inr a Ha (Some 1)) as Hnrb.
     rewrite (len_no_routine _ Hnrb) in *.
     set (B := c_stmt rt mt false (Some 1) a) in *. set (kB := zlength B) in *.
     apply code_at_app in Hcode. destruct Hcode as [Hloop Hcode]. cbn [code_at] in Hloop. destruct Hloop as [Hfl _].
@@ -455,18 +762,23 @@ Proof.
     assert (E1 : esteps 1 im s = Some (s1, [])) by (apply (estep1 im s _ _ _ Hfl); reflexivity).
     assert (Hs1 : sim ss s1) by (destruct Hsim; constructor; cbn; assumption).
     assert (Hin1 : in_loop_ok true (Some 1)) by (intros _; exists 1; reflexivity).
-    assert (Hiter : forall f ss1 sx sg ssx lv,
-              sim ss1 sx -> m_pc sx = P0 + 1 -> m_frames sx = FLoop lv d :: m_frames s -> m_stack sx = m_stack s ->
+    assert (Hiter : forall f ss1 sx sg ssx lv r,
+              sim ss1 sx -> m_pc sx = P0 + 1 -> m_frames sx = FLoop lv d :: r -> erase r = erase (m_frames s) -> m_stack sx = m_stack s ->
               iterate rt mt f false ss1 None None None None a = ROk sg ssx ->
-              sg = SigNormal /\ exists n sy evs, esteps n im sx = Some (sy, evs) /\ sim ssx sy /\ m_pc sy = P0 + (1 + kB + 4) /\
-                                           (m_stack sy, m_frames sy) = (m_stack s, m_frames s) /\ rev (s_trace ssx) = rev (s_trace ss1) ++ evs).
-    { induction f as [|f IHf]; intros ss1 sx sg ssx lv Hsx Hpcx Hfrx Hstx Hit; [discriminate|].
+              (sg = SigNormal /\ exists n sy evs, esteps n im sx = Some (sy, evs) /\ sim ssx sy /\ m_pc sy = P0 + (1 + kB + 4) /\
+                                           (m_stack sy, fr sy) = (m_stack s, fr s) /\ rev (s_trace ssx) = rev (s_trace ss1) ++ evs) \/
+              (exists v, sg = SigReturn v /\ returned im ss1 sx ssx)).
+    { induction f as [|f IHf]; intros ss1 sx sg ssx lv r Hsx Hpcx Hfrx Herx Hstx Hit; [discriminate|].
+      assert (Hctx : call_tail (m_frames sx) = call_tail (m_frames s)) by (rewrite Hfrx; cbn [call_tail]; apply call_tail_fr_eq; exact Herx).
+      assert (Hdx : depth_ok (m_frames sx) (zlength (m_stack sx))).
+      { rewrite Hfrx, Hstx. cbn [depth_ok]. split; [reflexivity|]. apply (depth_ok_fr_eq (m_frames s) r); [symmetry; exact Herx|exact Hd]. }
+      assert (Hirx : in_ret_ok inr (m_frames sx)) by (intros Hi; destruct (Hir Hi) as (ret & F & H); exists ret, F; rewrite Hctx; exact H).
       rewrite iterate_infinite in Hit.
       assert (Hftx : fetch im (m_pc sx) = Some (I2 OC_MOVEQ (PBool true) (PReg R_RESULT))) by (rewrite Hpcx; exact Hft).
       set (s2 := put_vm sx (DReg R_RESULT) (VBool true) 1) in *.
       assert (Et : esteps 1 im sx = Some (s2, [])).
       { apply (estep1 im sx _ _ _ Hftx). change (PReg R_RESULT) with (dest_param (DReg R_RESULT)).
-        rewrite (exec_moveq im sx (PBool true) (DReg R_RESULT) (VBool true) eq_refl eq_refl). apply lift_put; [exact (sim_frames _ _ Hsx)|reflexivity]. }
+        rewrite (exec_moveq im sx (PBool true) (DReg R_RESULT) (VBool true) eq_refl eq_refl). apply lift_put; reflexivity. }
       assert (Hs2 : sim ss1 s2) by (apply sim_put_reg_hidden; [exact Hsx|reflexivity]).
       assert (Hr2 : rf_get (m_regs s2) R_RESULT = Some (VBool true)) by (unfold s2; cbn [put_vm m_regs]; apply rf_get_set_same).
       assert (Hpc2 : m_pc s2 = P0 + 1 + 1) by (unfold s2; cbn [put_vm m_pc]; rewrite Hpcx; reflexivity).
@@ -475,137 +787,169 @@ Proof.
       destruct (Sem.exec rt mt f false ss1 a) as [sgb sb|eb sb|sb] eqn:Eb; cbn [sbind] in Hit; try discriminate.
       set (s3 := with_pc s2 (m_pc s2 + 1)) in *.
       assert (HcB3 : code_at im (m_pc s3) B) by (unfold s3; cbn [with_pc m_pc]; rewrite Hpc2; exact HcB).
-      assert (Hst3 : m_stack s3 = m_stack s /\ m_frames s3 = FLoop lv d :: m_frames s) by (split; assumption).
+      assert (Hst3 : m_stack s3 = m_stack s /\ m_frames s3 = FLoop lv d :: r) by (split; assumption).
       destruct Hst3 as [Hsk3 Hfk3].
-      destruct (IHa (Some 1) im ss1 s3 sgb sb f Hin1 (sim_with_pc ss1 s2 _ Hs2) HcB3 Eb)
-        as [[Hsgb (n3 & s4 & e4 & E4 & Hs4 & Hpc4 & Hst4 & Ht4)]|[Hsgb (a' & Ha' & (n3 & s4 & e4 & E4 & Hs4 & Hpc4 & Hst4 & Ht4))]]; subst sgb.
+      assert (E23 : esteps (1 + 1) im sx = Some (s3, [] ++ [])) by (eapply esteps_app; eassumption).
+      destruct (IHa (Some 1) im ss1 s3 sgb sb f Hload Hin1 Hirx Hdx (sim_with_pc ss1 s2 _ Hs2) HcB3 Eb)
+        as [[Hsgb (n3 & s4 & e4 & E4 & Hs4 & Hpc4 & Hst4 & Ht4)]|[[Hsgb (a' & Ha' & (n3 & s4 & e4 & E4 & Hs4 & Hpc4 & Hst4 & Ht4))]|[v [Hsgb Hret]]]]; subst sgb.
       + assert (Hfjb4 : fetch im (m_pc s4) = Some (jump JC_ALWAYS (- (1 + 1 + kB)))).
         { rewrite Hpc4. unfold s3. cbn [with_pc m_pc]. rewrite Hpc2. fold B. fold kB. exact Hfjb. }
         pose proof (jump_always im s4 (- (1 + 1 + kB)) Hfjb4) as Ejb.
         set (s5 := with_pc s4 (m_pc s4 + - (1 + 1 + kB))) in *.
-        assert (Hsk4 : m_stack s4 = m_stack s) by (transitivity (m_stack s3); [exact (f_equal fst Hst4)|exact Hsk3]).
-        assert (Hfk4 : m_frames s4 = FLoop lv d :: m_frames s) by (transitivity (m_frames s3); [exact (f_equal snd Hst4)|exact Hfk3]).
-        destruct (IHf sb s5 sg ssx lv (sim_with_pc sb s4 _ Hs4)) as [Hsg (n6 & s6 & e6 & E6 & Hs6 & Hpc6 & Hst6 & Ht6)].
+        destruct (loop_frame_kept s4 s3 s lv d r Hst4 Hsk3 Hfk3 Herx) as [Hsk4 (r4 & Hfk4 & Her4)].
+        assert (E25 : esteps (1 + (1 + (n3 + 1))) im sx = Some (s5, [] ++ ([] ++ (e4 ++ [])))) by (eapply esteps_app; [exact Et|eapply esteps_app; [exact Ej|eapply esteps_app; [exact E4|exact Ejb]]]).
+        destruct (IHf sb s5 sg ssx lv r4 (sim_with_pc sb s4 _ Hs4)) as [[Hsg (n6 & s6 & e6 & E6 & Hs6 & Hpc6 & Hst6 & Ht6)]|[v [Hsg Hret]]].
         { unfold s5. cbn [with_pc m_pc]. rewrite Hpc4. unfold s3. cbn [with_pc m_pc]. rewrite Hpc2. fold B. fold kB. lia. }
         { exact Hfk4. }
+        { exact Her4. }
         { exact Hsk4. }
         { exact Hit. }
-        split; [exact Hsg|]. exists (1 + (1 + (n3 + (1 + n6))))%nat, s6, ([] ++ ([] ++ (e4 ++ ([] ++ e6)))).
-        split; [eapply esteps_app; [exact Et|eapply esteps_app; [exact Ej|eapply esteps_app; [exact E4|eapply esteps_app; [exact Ejb|exact E6]]]]|].
-        split; [exact Hs6|]. split; [exact Hpc6|]. split; [exact Hst6|]. cbn [app]. rewrite Ht6, Ht4, app_assoc. reflexivity.
+        * left. split; [exact Hsg|]. exists ((1 + (1 + (n3 + 1))) + n6)%nat, s6, (([] ++ ([] ++ (e4 ++ []))) ++ e6).
+          split; [eapply esteps_app; [exact E25|exact E6]|].
+          split; [exact Hs6|]. split; [exact Hpc6|]. split; [exact Hst6|]. cbn [app]. rewrite Ht6, Ht4, app_nil_r, app_assoc. reflexivity.
+        * right. exists v. split; [exact Hsg|].
+          apply (returned_rebase im ss1 sx sb s5 (1 + (1 + (n3 + 1)))%nat ([] ++ ([] ++ (e4 ++ []))) ssx E25); [|rewrite Hstx; exact Hsk4|cbn [app]; rewrite app_nil_r; exact Ht4|exact Hret].
+          change (m_frames s5) with (m_frames s4). rewrite Hfk4, Hctx. cbn [call_tail]. apply call_tail_fr_eq. exact Her4.
       + injection Ha' as Ha'. subst a'. injection Hit as Hsg Hss. subst ssx.
-        assert (Hsk4 : m_stack s4 = m_stack s) by (transitivity (m_stack s3); [exact (f_equal fst Hst4)|exact Hsk3]).
-        assert (Hfk4 : m_frames s4 = FLoop lv d :: m_frames s) by (transitivity (m_frames s3); [exact (f_equal snd Hst4)|exact Hfk3]).
+        destruct (loop_frame_kept s4 s3 s lv d r Hst4 Hsk3 Hfk3 Herx) as [Hsk4 (r4 & Hfk4 & Her4)].
         assert (Hfe4 : fetch im (m_pc s4) = Some (I0 OC_END_LOOP)).
         { rewrite Hpc4. unfold s3. cbn [with_pc m_pc]. rewrite Hpc2. fold B. fold kB. exact Hfe. }
-        destruct (end_loop_step im sb s4 s lv Hs4 (sim_frames _ _ Hsim) Hfe4 Hfk4 Hsk4) as (s5 & E5 & Hs5 & Hpc5 & Hst5).
-        split; [auto|]. exists (1 + (1 + (n3 + 1)))%nat, s5, ([] ++ ([] ++ (e4 ++ []))).
+        destruct (end_loop_step im sb s4 s lv r4 Hs4 Hfe4 Hfk4 Her4 Hsk4) as (s5 & E5 & Hs5 & Hpc5 & Hst5).
+        left. split; [auto|]. exists (1 + (1 + (n3 + 1)))%nat, s5, ([] ++ ([] ++ (e4 ++ []))).
         split; [eapply esteps_app; [exact Et|eapply esteps_app; [exact Ej|eapply esteps_app; [exact E4|exact E5]]]|].
         split; [exact Hs5|]. split; [rewrite Hpc5, Hpc4; unfold s3; cbn [with_pc m_pc]; rewrite Hpc2; fold B; fold kB; lia|].
-        split; [exact Hst5|]. cbn [app]. rewrite app_nil_r. exact Ht4. }
-    destruct (Hiter fuel ss s1 sig ss' [] Hs1 eq_refl eq_refl eq_refl He) as [Hsig (n & sy & evs & En & Hsy & Hpcy & Hsty & Hty)].
-    left. split; [exact Hsig|]. exists (1 + n)%nat, sy, ([] ++ evs).
-    split; [eapply esteps_app; [exact E1|exact En]|]. split; [exact Hsy|].
-    split; [rewrite Hpcy; unfold kB, zlength; rewrite !app_length; cbn [length]; rewrite !Nat2Z.inj_add; lia|].
-    split; [exact Hsty|exact Hty].
+        split; [exact Hst5|]. cbn [app]. rewrite app_nil_r. exact Ht4.
+      + (* the body returns *)
+        injection Hit as Hsg Hss. subst sg ssx. right. exists v. split; [reflexivity|].
+        exact (returned_rebase im ss1 sx ss1 s3 (1 + 1)%nat ([] ++ []) sb E23 eq_refl eq_refl (eq_sym (app_nil_r _)) Hret). }
+    destruct (Hiter fuel ss s1 sig ss' [] (m_frames s) Hs1 eq_refl eq_refl eq_refl eq_refl He) as [[Hsig (n & sy & evs & En & Hsy & Hpcy & Hsty & Hty)]|[v [Hsig Hret]]].
+    + left. split; [exact Hsig|]. exists (1 + n)%nat, sy, ([] ++ evs).
+      split; [eapply esteps_app; [exact E1|exact En]|]. split; [exact Hsy|].
+      split; [rewrite Hpcy; unfold kB, zlength; rewrite !app_length; cbn [length]; rewrite !Nat2Z.inj_add; lia|].
+      split; [exact Hsty|exact Hty].
+    + right. right. exists v. split; [exact Hsig|].
+      exact (returned_rebase im ss s ss s1 1%nat [] ss' E1 eq_refl eq_refl (eq_sym (app_nil_r _)) Hret).
   - (* empty sequence *)
-    intros inl after im ss s sig ss' fuel _ Hsim Hc He. destruct fuel as [|fuel]; [discriminate|]. rewrite exec_seq_nil in He.
+    intros inl inr after im ss s sig ss' fuel _ _ _ _ Hsim Hc He. destruct fuel as [|fuel]; [discriminate|]. rewrite exec_seq_nil in He.
     injection He as Hsig He. subst ss'. left. split; [auto|]. rewrite c_block_nil. unfold zlength. cbn [length]. rewrite Z.add_0_r.
     apply sim_to_refl. exact Hsim.
   - (* sequence *)
-    intros inl st r Hst IHst Hr IHr after im ss s sig ss' fuel Hin Hsim Hc He.
+    intros inl inr st r Hst IHst Hr IHr after im ss s sig ss' fuel Hload Hin Hir Hd Hsim Hc He.
     destruct fuel as [|fuel]; [discriminate|]. rewrite exec_seq_cons in He. rewrite c_block_cons_after in *.
-    pose proof (proj2 simpleB_no_routine inl r Hr after) as Hnrr. rewrite (len_no_routine _ Hnrr) in *.
+    pose proof (proj2 simpleB_no_routine inl inr r Hr after) as Hnrr. rewrite (len_no_routine _ Hnrr) in *.
     set (rest := c_stmt rt mt false after (SBlock r)) in *.
     set (after_st := option_map (fun a : Z => a + zlength rest) after) in *.
     set (first := c_stmt rt mt false after_st st) in *.
     destruct (Sem.exec rt mt fuel false ss st) as [sg sa|e sa|sa] eqn:Est; cbn [sbind] in He; try discriminate.
     apply code_at_app in Hc. destruct Hc as [Hc1 Hc2].
     assert (Hlen : zlength (first ++ rest) = zlength first + zlength rest) by (unfold zlength; rewrite app_length, Nat2Z.inj_add; reflexivity).
-    destruct (IHst after_st im ss s sg sa fuel (in_loop_ok_map inl after _ Hin) Hsim Hc1 Est) as [[Hsg (n1 & s1 & e1 & E1 & Hs1 & Hpc1 & Hst1 & Ht1)]|[Hsg (a' & Ha' & Hto)]].
+    destruct (IHst after_st im ss s sg sa fuel Hload (in_loop_ok_map inl after _ Hin) Hir Hd Hsim Hc1 Est) as [[Hsg (n1 & s1 & e1 & E1 & Hs1 & Hpc1 & Hst1 & Ht1)]|[[Hsg (a' & Ha' & Hto)]|[v [Hsg Hret]]]].
     + subst sg.
       assert (Hc2' : code_at im (m_pc s1) rest) by (rewrite Hpc1; exact Hc2).
-      pose proof (IHr after im sa s1 sig ss' fuel Hin Hs1 Hc2' He) as Ho.
+      destruct (fr_eq_facts s1 s Hst1) as [Hsk1 [Hct1 Hdp1]].
+      assert (Hir1 : in_ret_ok inr (m_frames s1)) by (intros Hi; destruct (Hir Hi) as (ret & F & H); exists ret, F; rewrite Hct1; exact H).
+      assert (Hd1 : depth_ok (m_frames s1) (zlength (m_stack s1))) by (rewrite Hsk1; apply Hdp1; exact Hd).
+      pose proof (IHr after im sa s1 sig ss' fuel Hload Hin Hir1 Hd1 Hs1 Hc2' He) as Ho.
       apply (outcome_after_steps after im ss s sa s1 n1 e1 sig ss' rest); [exact E1|exact Hst1|exact Ht1| |exact Ho].
       rewrite Hpc1, Hlen. unfold first. ring.
     + subst sg. injection He as Hsig Hss. subst sig ss'.
-      right. split; [reflexivity|]. unfold after_st in Ha'. destruct after as [a0|]; cbn [option_map] in Ha'; [|discriminate]. injection Ha' as Ha'. subst a'.
+      right. left. split; [reflexivity|]. unfold after_st in Ha'. destruct after as [a0|]; cbn [option_map] in Ha'; [|discriminate]. injection Ha' as Ha'. subst a'.
       exists a0. split; [reflexivity|]. rewrite Hlen.
       replace (m_pc s + (zlength first + zlength rest) + a0) with (m_pc s + zlength first + (a0 + zlength rest)) by ring. exact Hto.
+    + subst sg. injection He as Hsig Hss. subst sig ss'. right. right. exists v. split; [reflexivity|exact Hret].
 Qed.
+
+
 
 End Sim3.
 
-(* every call-free program of covered statements, conditionals, blocks, while / counted / endless loops and breaks:
-   compiled, loaded and run on the machine model from the initial state it finishes with exactly the events the
-   reference semantics gives for its source *)
-Theorem structured_program_runs_as_its_source_says (p : script) (w : world) (fuel : nat) (evs : list event) :
-  SimpleBL (snd (collect p [] [])) false p ->
-  run_src fuel p w = SFinished evs ->
-  exists k, run_program k (compile p) w = Finished evs.
-Proof.
-  intros Hs Hrun. unfold run_src, compile in *. destruct (collect p [] []) as [rt mt] eqn:Ec. cbn [snd] in Hs.
-  destruct (exec_seq rt mt fuel false (init_sstate w) p) as [sig ss'|e ss'|ss'] eqn:Ee; try discriminate.
-  injection Hrun as Hrun.
-  rewrite <- (c_block_flat rt mt p).
-  set (code := c_stmt rt mt false None (SBlock p)) in *.
-  set (im := load code).
-  assert (Him : im_code im = code) by (apply load_no_routine; apply (proj2 (simpleB_no_routine rt mt) false p Hs None)).
-  assert (Hc : code_at im (m_pc (init_state w)) code) by (apply (code_at_suffix im [] code); exact Him).
-  assert (Hin : in_loop_ok false None) by (intros H; discriminate).
-  destruct (proj2 (simpleB_simulation rt mt) false p Hs None im (init_sstate w) (init_state w) sig ss' fuel Hin (sim_init w) Hc Ee)
-    as [[_ (n & s' & es & En & Hsim & Hpc & _ & Htr)]|[_ (a & Ha & _)]]; [|discriminate].
-  exists (n + 1)%nat. unfold run_program, run_image. fold im.
-  rewrite (run_from_esteps n im (init_state w) s' es 1 [] En). cbn [run_from].
-  assert (Hend : (zlength (im_code im) <=? m_pc s') = true).
-  { apply Z.leb_le. rewrite Him, Hpc. fold code. cbn [init_state m_pc]. lia. }
-  rewrite Hend. cbn [fst]. unfold flush_events. rewrite (sim_unnamed _ _ Hsim). cbn [map app].
-  rewrite rev_append_rev, app_nil_r, rev_involutive. cbn [init_sstate s_trace rev app] in Htr. rewrite <- Htr. f_equal. exact Hrun.
-Qed.
-
 (* where the machine stands afterwards, and that nothing is left dangling (the statement of C05 for this fragment) *)
 Theorem structured_control_leads_where_the_source_says :
-  forall rt mt inl st, SimpleB mt inl st ->
-  forall after im ss s sig ss' fuel, in_loop_ok inl after -> sim ss s -> code_at im (m_pc s) (c_stmt rt mt false after st) ->
+  forall rt mt inl inr st, SimpleB rt mt inl inr st ->
+  forall after im ss s sig ss' fuel, routines_loaded rt mt im -> in_loop_ok inl after -> in_ret_ok inr (m_frames s) ->
+  depth_ok (m_frames s) (zlength (m_stack s)) -> sim ss s -> code_at im (m_pc s) (c_stmt rt mt false after st) ->
   Sem.exec rt mt fuel false ss st = ROk sig ss' ->
   (sig = SigNormal /\ exists n s' evs, esteps n im s = Some (s', evs) /\ m_pc s' = m_pc s + zlength (c_stmt rt mt false after st) /\
-                                       (m_stack s', m_frames s') = (m_stack s, m_frames s)) \/
+                                       (m_stack s', fr s') = (m_stack s, fr s)) \/
   (sig = SigBreak /\ exists a n s' evs, after = Some a /\ esteps n im s = Some (s', evs) /\
                                         m_pc s' = m_pc s + zlength (c_stmt rt mt false after st) + a /\
-                                        (m_stack s', m_frames s') = (m_stack s, m_frames s)).
+                                        (m_stack s', fr s') = (m_stack s, fr s)) \/
+  (exists v, sig = SigReturn v /\ exists ret F n s' evs, call_tail (m_frames s) = Some (ret, F) /\ esteps n im s = Some (s', evs) /\
+                                        m_pc s' = ret + 1 /\ m_frames s' = F /\ m_stack s' = m_stack s).
 Proof.
-  intros rt mt inl st Hst after im ss s sig ss' fuel Hin Hsim Hc He.
-  destruct (proj1 (simpleB_simulation rt mt) inl st Hst after im ss s sig ss' fuel Hin Hsim Hc He)
-    as [[Hsig (n & s' & evs & E & _ & Hpc & Hsf & _)]|[Hsig (a & Ha & n & s' & evs & E & _ & Hpc & Hsf & _)]].
+  intros rt mt inl inr st Hst after im ss s sig ss' fuel Hload Hin Hir Hd Hsim Hc He.
+  destruct (proj1 (simpleB_simulation rt mt) inl inr st Hst after im ss s sig ss' fuel Hload Hin Hir Hd Hsim Hc He)
+    as [[Hsig (n & s' & evs & E & _ & Hpc & Hsf & _)]|[[Hsig (a & Ha & n & s' & evs & E & _ & Hpc & Hsf & _)]|[v [Hsig (ret & F & Hct & n & s' & evs & E & _ & Hpc & Hfr & Hsk & _)]]]].
   - left. split; [exact Hsig|]. exists n, s', evs. split; [exact E|]. split; [exact Hpc|exact Hsf].
-  - right. split; [exact Hsig|]. exists a, n, s', evs. split; [exact Ha|]. split; [exact E|]. split; [exact Hpc|exact Hsf].
+  - right. left. split; [exact Hsig|]. exists a, n, s', evs. split; [exact Ha|]. split; [exact E|]. split; [exact Hpc|exact Hsf].
+  - right. right. exists v. split; [exact Hsig|]. exists ret, F, n, s', evs. repeat split; assumption.
 Qed.
 
-(* a boolean test for the covered programs (sound for SimpleB / SimpleBL) *)
+(* a call: the arguments are evaluated in the caller's scope, the body runs with the parameters as its own variables (by
+   value: assigning to one changes the routine's dictionary only), and afterwards the machine is behind the call with the
+   caller's stack and frames as they were (C03) *)
+Theorem call_simulation :
+  forall rt mt (inl inr : bool) f args b d, builtin_params f builtin_table = None -> find_rdef rt f = Some d ->
+  plain_args mt args (rd_params d) = true -> SimpleB rt mt false true (rd_body d) ->
+  forall after im ss s sig ss' fuel, routines_loaded rt mt im -> depth_ok (m_frames s) (zlength (m_stack s)) -> sim ss s ->
+  code_at im (m_pc s) (c_stmt rt mt false after (SCall f args b)) ->
+  Sem.exec rt mt fuel false ss (SCall f args b) = ROk sig ss' ->
+  sig = SigNormal /\
+  exists n s' evs, esteps n im s = Some (s', evs) /\ sim ss' s' /\ m_pc s' = m_pc s + zlength (c_stmt rt mt false after (SCall f args b)) /\
+                   (m_stack s', fr s') = (m_stack s, fr s) /\ rev (s_trace ss') = rev (s_trace ss) ++ evs.
+Proof.
+  intros rt mt inl inr f args b d Hb Hf Hpl Hbody after im ss s sig ss' fuel Hload Hd Hsim Hc He.
+  assert (Hsig : sig = SigNormal).
+  { destruct fuel as [|fuel]; [discriminate|]. rewrite exec_call in He.
+    destruct (call rt mt fuel false ss f args) as [v s1|e s1|s1]; cbn [sbind] in He; try discriminate. injection He as <- _. reflexivity. }
+  subst sig. split; [reflexivity|].
+  assert (Hir : in_ret_ok false (m_frames s)) by (intros H; discriminate).
+  assert (Hin : in_loop_ok false after) by (intros H; discriminate).
+  destruct (proj1 (simpleB_simulation rt mt) false false (SCall f args b) (B_call rt mt false false f args b d Hb Hf Hpl Hbody) after im ss s SigNormal ss' fuel Hload
+              Hin Hir Hd Hsim Hc He) as [[_ Hto]|[[H _]|[v [H _]]]]; try discriminate.
+  exact Hto.
+Qed.
+
+(* a boolean test for the covered statements (sound for SimpleB / SimpleBL) *)
 Section CheckB.
+Variable rt : rtable.
 Variable mt : mtable.
-Fixpoint simpleB_b (fuel : nat) (inl : bool) (st : stmt) : bool :=
+Fixpoint simpleB_b (fuel : nat) (inl inr : bool) (st : stmt) : bool :=
   match fuel with
   | O => false
   | S f =>
       simple_atom mt st ||
       match st with
       | SBreak => inl
-      | SIf c a None => plain_rval mt c && simpleB_b f inl a
-      | SIf c a (Some b) => plain_rval mt c && simpleB_b f inl a && simpleB_b f inl b
-      | SBlock l => forallb (simpleB_b f inl) l
-      | SRepeat (LWhile c) a => plain_rval mt c && simpleB_b f true a
-      | SRepeat (LCount n) a => plain_rval mt n && simpleB_b f true a
-      | SRepeat LInfinite a => simpleB_b f true a
+      | SReturn (Some v) => inr && plain_rval mt v
+      | SReturn None => inr
+      | SCall g args _ =>
+          match builtin_params g builtin_table, find_rdef rt g with
+          | None, Some d => plain_args mt args (rd_params d) && simpleB_b f false true (rd_body d)
+          | _, _ => false
+          end
+      | SIf c a None => plain_rval mt c && simpleB_b f inl inr a
+      | SIf c a (Some b) => plain_rval mt c && simpleB_b f inl inr a && simpleB_b f inl inr b
+      | SBlock l => forallb (simpleB_b f inl inr) l
+      | SRepeat (LWhile c) a => plain_rval mt c && simpleB_b f true inr a
+      | SRepeat (LCount n) a => plain_rval mt n && simpleB_b f true inr a
+      | SRepeat LInfinite a => simpleB_b f true inr a
       | _ => false
       end
   end.
 
-Lemma simpleB_b_sound fuel : forall inl st, simpleB_b fuel inl st = true -> SimpleB mt inl st.
+Lemma simpleB_b_sound fuel : forall inl inr st, simpleB_b fuel inl inr st = true -> SimpleB rt mt inl inr st.
 Proof.
-  induction fuel as [|f IH]; intros inl st H; [discriminate|]. cbn [simpleB_b] in H.
+  induction fuel as [|f IH]; intros inl inr st H; [discriminate|]. cbn [simpleB_b] in H.
   destruct (simple_atom mt st) eqn:Ea; [apply B_simple; apply S_atom; exact Ea|]. cbn [orb] in H.
   destruct st; try discriminate.
+  - (* call *)
+    destruct (builtin_params f0 builtin_table) eqn:Eb; [discriminate|]. destruct (find_rdef rt f0) as [d|] eqn:Ef; [|discriminate].
+    apply andb_true_iff in H. destruct H as [Hp Hb]. apply (B_call rt mt inl inr f0 args bracketed d Eb Ef Hp). apply IH. exact Hb.
+  - (* return *)
+    destruct v as [v|].
+    + apply andb_true_iff in H. destruct H as [Hr Hv]. subst inr. apply B_return. exact Hv.
+    + subst inr. apply B_return0.
   - destruct s2 as [b|].
     + apply andb_true_iff in H. destruct H as [H Hb]. apply andb_true_iff in H. destruct H as [Hc Ha].
       apply B_ifelse; [exact Hc|apply IH; exact Ha|apply IH; exact Hb].
@@ -617,11 +961,5 @@ Proof.
   - subst inl. apply B_break.
   - apply B_block. clear Ea. induction ss as [|x r IHr]; [constructor|]. cbn [forallb] in H. apply andb_true_iff in H. destruct H as [Hx Hr].
     constructor; [apply IH; exact Hx|apply IHr; exact Hr].
-Qed.
-
-Lemma simpleB_list_sound fuel l : forallb (simpleB_b fuel false) l = true -> SimpleBL mt false l.
-Proof.
-  induction l as [|x r IH]; intros H; [constructor|]. cbn [forallb] in H. apply andb_true_iff in H. destruct H as [Hx Hr].
-  constructor; [apply (simpleB_b_sound fuel); exact Hx|apply IH; exact Hr].
 Qed.
 End CheckB.
